@@ -1,6 +1,2704 @@
-//! C09 — monitor not built yet.
-use crate::core::Ctx;
+//! C09 — streaming is transparent: results independent of I/O fragmentation and faults.
+//!
+//! Oracle: DIFFERENTIAL OVER SCHEDULES. Run R0 = (all-at-once source, read_to_end consumer,
+//! all-accepting sink) is the reference history of a case; every other (source schedule,
+//! consumer pattern, sink acceptance schedule) run of the same case must give identical results
+//! (bytes, literal metadata, verification verdict, error class Ok/Err). Fault runs inject one
+//! `io::Error` at call k of the source or sink (once or sticky); the API must answer `Err`, or
+//! `Ok` with a result identical to R0 (a fault that hit a call whose result the library may
+//! legitimately ignore); `Ok` with a different result is "fault swallowed".
+//!
+//! Families (the `mine()` sequence never depends on results):
+//!   S  small components, exhaustive compositions: Base64Decoder, Base64Reader, both stacked,
+//!      NormalizedReader, LineWriter, SignatureHasher (io::Write)
+//!   D  Dearmor of a small armor: every 1- and 2-split schedule, every Fixed(k)
+//!   E  CFB StreamEncryptor / StreamDecryptor (protected check-first, protected streaming,
+//!      unprotected), AEAD StreamEncryptor / StreamDecryptor, PacketParser
+//!   B  MessageBuilder::from_reader: source schedules and sink acceptance schedules
+//!   R  Message reader: source schedules x consumer patterns (binary and armored)
+//!   K  certificates / messages with armor headers through the composed entry points
+//!   F  fault injection into all of the above (Other once / sticky, Interrupted once)
+
+use std::cell::RefCell;
+use std::io::{self, BufRead, Read, Write};
+use std::rc::Rc;
+use std::sync::{Arc, Mutex};
+
+use generic_array::typenum::{U4, U64};
+use pgp::armor::{BlockType, Dearmor};
+use pgp::base64::{Base64Decoder, Base64Reader};
+use pgp::composed::{
+    ArmorOptions, DecryptionOptions, Message, MessageBuilder, PlainSessionKey, SignedSecretKey,
+    SubpacketConfig, TheRing,
+};
+use pgp::crypto::aead::{AeadAlgorithm, ChunkSize};
+use pgp::crypto::hash::HashAlgorithm;
+use pgp::crypto::sym::SymmetricKeyAlgorithm;
+use pgp::line_writer::{LineBreak, LineWriter};
+use pgp::normalize_lines::NormalizedReader;
+use pgp::packet::{
+    DataMode, PacketParser, SignatureConfig, SignatureType, Subpacket, SubpacketData,
+    SymEncryptedProtectedData,
+};
+use pgp::ser::Serialize;
+use pgp::types::{
+    CompressionAlgorithm, KeyDetails, Password, Seipdv1ReadMode, StringToKey, Timestamp,
+};
+use rand::{Rng, RngCore, SeedableRng};
+use rand_chacha::ChaCha8Rng;
+use serde_json::{json, Value};
+
+use crate::core::{describe_case, hexs, Ctx};
+use crate::hooks;
+use crate::rec::RecSigner;
+use crate::rfc;
+use crate::shim::{
+    chunks_by_splits, composition_splits, drain, drain_read, Consume, Fault, FaultKind, Sched,
+};
+use crate::zoo;
+
+// ------------------------------------------------------------------------------------------
+// local shims. `Message::from_bytes` wants `BufRead + Debug + Send`, which the shared
+// `shim::SchedReader` (Rc log, no Debug) cannot give; the local source also keeps a correct
+// window when `read` and `fill_buf` are mixed, and the local sink counts `flush` as a fault point.
+
+#[derive(Debug, Default, Clone)]
+struct Log {
+    calls: usize,
+    bytes: usize,
+    faults_raised: usize,
+    calls_after_fault: usize,
+    zero_returns: usize,
+    flushes: usize,
+    /// stream position at the start of each call
+    offsets: Vec<u32>,
+}
+
+type LogRef = Arc<Mutex<Log>>;
+
+fn new_log() -> LogRef {
+    Arc::new(Mutex::new(Log::default()))
+}
+
+fn mk_err(k: FaultKind) -> io::Error {
+    match k {
+        FaultKind::Other => io::Error::other("injected fault"),
+        FaultKind::Interrupted => io::Error::new(io::ErrorKind::Interrupted, "injected interrupt"),
+        FaultKind::WouldBlock => io::Error::new(io::ErrorKind::WouldBlock, "injected wouldblock"),
+        FaultKind::UnexpectedEof => io::Error::new(io::ErrorKind::UnexpectedEof, "injected eof"),
+    }
+}
+
+struct Stepper {
+    sched: Sched,
+    idx: usize,
+    rng: ChaCha8Rng,
+}
+
+impl std::fmt::Debug for Stepper {
+    fn fmt(&self, f: &mut std::fmt::Formatter<'_>) -> std::fmt::Result {
+        write!(f, "Stepper({})", self.sched.name())
+    }
+}
+
+impl Stepper {
+    fn new(sched: Sched) -> Self {
+        let seed = match &sched {
+            Sched::Random(s, _) => *s,
+            _ => 0,
+        };
+        Stepper { sched, idx: 0, rng: ChaCha8Rng::seed_from_u64(seed) }
+    }
+    /// size of the next piece when the stream is at `pos` and the caller wants `want`
+    fn next(&mut self, pos: usize, want: usize) -> usize {
+        match &self.sched {
+            Sched::All => want,
+            Sched::Fixed(n) => (*n).max(1).min(want),
+            Sched::Cycle(v) => {
+                let n = v[self.idx % v.len()].max(1);
+                self.idx += 1;
+                n.min(want)
+            }
+            Sched::SplitAt(v) => match v.iter().copied().find(|o| *o > pos) {
+                Some(o) => (o - pos).min(want),
+                None => want,
+            },
+            Sched::Random(_, max) => {
+                let m = (*max).max(1);
+                self.rng.gen_range(1..=m).min(want)
+            }
+        }
+    }
+}
+
+/// Schedule driven source: `Read + BufRead + Debug + Send`.
+#[derive(Debug)]
+struct Src {
+    data: Arc<Vec<u8>>,
+    pos: usize,
+    step: Stepper,
+    fault: Option<Fault>,
+    log: LogRef,
+    window: usize,
+}
+
+impl Src {
+    fn new(data: &Arc<Vec<u8>>, sched: &Sched) -> Self {
+        Src {
+            data: data.clone(),
+            pos: 0,
+            step: Stepper::new(sched.clone()),
+            fault: None,
+            log: new_log(),
+            window: 0,
+        }
+    }
+    fn of(data: &[u8], sched: &Sched) -> Self {
+        Self::new(&Arc::new(data.to_vec()), sched)
+    }
+    fn fault(mut self, f: Option<Fault>) -> Self {
+        self.fault = f;
+        self
+    }
+    fn log(&self) -> LogRef {
+        self.log.clone()
+    }
+    fn check_fault(&mut self) -> io::Result<()> {
+        let mut log = self.log.lock().unwrap();
+        let call = log.calls;
+        log.calls += 1;
+        let p = self.pos as u32;
+        log.offsets.push(p);
+        if let Some(f) = self.fault {
+            if call == f.at_call || (f.sticky && call > f.at_call) {
+                log.faults_raised += 1;
+                return Err(mk_err(f.kind));
+            }
+            if call > f.at_call {
+                log.calls_after_fault += 1;
+            }
+        }
+        Ok(())
+    }
+}
+
+impl Read for Src {
+    fn read(&mut self, buf: &mut [u8]) -> io::Result<usize> {
+        self.check_fault()?;
+        if buf.is_empty() {
+            return Ok(0);
+        }
+        let remaining = self.data.len() - self.pos;
+        let n = if self.window > 0 {
+            self.window.min(buf.len())
+        } else {
+            self.step.next(self.pos, buf.len()).min(remaining)
+        };
+        buf[..n].copy_from_slice(&self.data[self.pos..self.pos + n]);
+        self.pos += n;
+        self.window = self.window.saturating_sub(n);
+        let mut log = self.log.lock().unwrap();
+        log.bytes += n;
+        if n == 0 {
+            log.zero_returns += 1;
+        }
+        Ok(n)
+    }
+}
+
+impl BufRead for Src {
+    fn fill_buf(&mut self) -> io::Result<&[u8]> {
+        self.check_fault()?;
+        if self.window == 0 {
+            let remaining = self.data.len() - self.pos;
+            self.window = self.step.next(self.pos, usize::MAX).min(remaining);
+            if self.window == 0 {
+                self.log.lock().unwrap().zero_returns += 1;
+            }
+        }
+        Ok(&self.data[self.pos..self.pos + self.window])
+    }
+    fn consume(&mut self, amt: usize) {
+        let amt = amt.min(self.window);
+        self.pos += amt;
+        self.window -= amt;
+        self.log.lock().unwrap().bytes += amt;
+    }
+}
+
+/// Schedule driven sink (short writes); `write` and `flush` calls are both fault points.
+struct Sink {
+    out: Rc<RefCell<Vec<u8>>>,
+    step: Stepper,
+    fault: Option<Fault>,
+    log: Rc<RefCell<Log>>,
+}
+
+impl Sink {
+    fn new(sched: &Sched) -> Self {
+        Sink {
+            out: Rc::new(RefCell::new(Vec::new())),
+            step: Stepper::new(sched.clone()),
+            fault: None,
+            log: Rc::new(RefCell::new(Log::default())),
+        }
+    }
+    fn fault(mut self, f: Option<Fault>) -> Self {
+        self.fault = f;
+        self
+    }
+    fn check_fault(&mut self) -> io::Result<()> {
+        let mut log = self.log.borrow_mut();
+        let call = log.calls;
+        log.calls += 1;
+        let p = self.out.borrow().len() as u32;
+        log.offsets.push(p);
+        if let Some(f) = self.fault {
+            if call == f.at_call || (f.sticky && call > f.at_call) {
+                log.faults_raised += 1;
+                return Err(mk_err(f.kind));
+            }
+            if call > f.at_call {
+                log.calls_after_fault += 1;
+            }
+        }
+        Ok(())
+    }
+}
+
+impl Write for Sink {
+    fn write(&mut self, buf: &[u8]) -> io::Result<usize> {
+        self.check_fault()?;
+        if buf.is_empty() {
+            return Ok(0);
+        }
+        let pos = self.out.borrow().len();
+        let n = self.step.next(pos, buf.len()).max(1).min(buf.len());
+        self.out.borrow_mut().extend_from_slice(&buf[..n]);
+        self.log.borrow_mut().bytes += n;
+        Ok(n)
+    }
+    fn flush(&mut self) -> io::Result<()> {
+        self.check_fault()?;
+        self.log.borrow_mut().flushes += 1;
+        Ok(())
+    }
+}
+
+// ------------------------------------------------------------------------------------------
+// outcomes and judging
+
+#[derive(Debug, Clone, PartialEq, Eq)]
+struct Out {
+    /// error class: false = Ok, true = Err
+    err: bool,
+    /// stage at which the error was raised / free text of the error (not compared)
+    note: String,
+    /// bytes produced / released (compared only when both runs are Ok)
+    data: Vec<u8>,
+    /// metadata and verdicts (compared only when both runs are Ok)
+    meta: String,
+}
+
+impl Out {
+    fn ok(data: Vec<u8>, meta: impl Into<String>) -> Self {
+        Out { err: false, note: String::new(), data, meta: meta.into() }
+    }
+    fn err(stage: &str, e: impl std::fmt::Display, data: Vec<u8>) -> Self {
+        let mut s = format!("{stage}: {e}");
+        s.truncate(160);
+        Out { err: true, note: s, data, meta: String::new() }
+    }
+    fn same(&self, o: &Out) -> bool {
+        self.err == o.err && (self.err || (self.data == o.data && self.meta == o.meta))
+    }
+    fn brief(&self) -> String {
+        if self.err {
+            format!("Err({}) after {} bytes", self.note, self.data.len())
+        } else {
+            format!("Ok({} bytes, meta={})", self.data.len(), trunc(&self.meta, 100))
+        }
+    }
+}
+
+fn trunc(s: &str, n: usize) -> String {
+    if s.len() <= n {
+        s.to_string()
+    } else {
+        let mut e = n;
+        while !s.is_char_boundary(e) {
+            e -= 1;
+        }
+        format!("{}…", &s[..e])
+    }
+}
+
+fn first_diff(a: &[u8], b: &[u8]) -> usize {
+    a.iter().zip(b.iter()).position(|(x, y)| x != y).unwrap_or(a.len().min(b.len()))
+}
+
+/// Differential judgement of a clean (fault free) run against R0.
+fn judge(ctx: &mut Ctx, comp: &str, r0: &Out, got: &Out, what: &dyn Fn() -> String, replay: &dyn Fn() -> Value) -> bool {
+    if r0.same(got) {
+        return true;
+    }
+    let sym = if r0.err != got.err {
+        if got.err { format!("ok-became-err{}", err_class(&got.note)) } else { "err-became-ok".to_string() }
+    } else if r0.data != got.data {
+        let c = if got.data.len() < r0.data.len() {
+            "shorter"
+        } else if got.data.len() > r0.data.len() {
+            "longer"
+        } else {
+            "same-length"
+        };
+        format!("data-differs/{c}")
+    } else {
+        "meta-differs".to_string()
+    };
+    ctx.violation(
+        format!("C09/{comp}/sched/{sym}"),
+        format!(
+            "{}: R0 = {}, this run = {}; first difference at byte {}",
+            what(),
+            r0.brief(),
+            got.brief(),
+            first_diff(&r0.data, &got.data)
+        ),
+        replay(),
+    );
+    false
+}
+
+/// Like `Ctx::guarded`, but the panic signature is `<prefix>/panic/<file>/<message slug>`: it does not
+/// carry the line number, so that an unrelated edit of the same source file does not rename a finding.
+fn guarded<T>(ctx: &mut Ctx, sigprefix: &str, replay: impl FnOnce() -> Value, f: impl FnOnce() -> T) -> Option<T> {
+    match crate::core::guard(f) {
+        Ok(v) => Some(v),
+        Err(p) => {
+            let loc = p.short_loc();
+            let file = loc.rsplit_once(':').map(|(f, _)| f.to_string()).unwrap_or(loc);
+            let mut slug = String::new();
+            for c in p.msg.chars().take(48) {
+                if c.is_ascii_alphanumeric() {
+                    slug.push(c.to_ascii_lowercase());
+                } else if !slug.ends_with('-') {
+                    slug.push('-');
+                }
+            }
+            let slug = slug.trim_matches('-').to_string();
+            if p.in_harness() {
+                ctx.inconclusive(format!("harness panic at {}: {}", p.loc, p.msg));
+                return None;
+            }
+            ctx.violation(format!("{sigprefix}/panic/{file}/{slug}"), format!("panic: {} at {}", p.msg, p.loc), replay());
+            None
+        }
+    }
+}
+
+/// stable class of an error text (only where the text names a parsing stage)
+fn err_class(note: &str) -> &'static str {
+    if note.contains("armor header") {
+        "/armor-header"
+    } else if note.contains("armor footer") {
+        "/armor-footer"
+    } else {
+        ""
+    }
+}
+
+fn kind_name(k: FaultKind) -> &'static str {
+    match k {
+        FaultKind::Other => "other",
+        FaultKind::Interrupted => "interrupted",
+        FaultKind::WouldBlock => "wouldblock",
+        FaultKind::UnexpectedEof => "eof",
+    }
+}
+
+/// Judgement of a fault run. `raised` = the shim really returned the injected error.
+fn judge_fault(
+    ctx: &mut Ctx,
+    comp: &str,
+    r0: &Out,
+    got: &Out,
+    raised: usize,
+    f: &Fault,
+    what: &dyn Fn() -> String,
+    replay: &dyn Fn() -> Value,
+) {
+    if raised == 0 {
+        ctx.tally("fault.not-reached", 1);
+        return;
+    }
+    ctx.tally(&format!("fault.raised.{}", kind_name(f.kind)), 1);
+    if got.err {
+        ctx.tally("fault.surfaced-as-err", 1);
+        return;
+    }
+    if r0.same(got) {
+        // the error hit a call whose result does not influence the result (e.g. a probing read
+        // after all data was consumed, or an Interrupted that was retried)
+        ctx.tally(&format!("fault.ok-identical.{}", kind_name(f.kind)), 1);
+        ctx.seen("fault.ok-identical.components", comp);
+        return;
+    }
+    let mode = if f.sticky { "sticky" } else { "once" };
+    let sig = match f.kind {
+        FaultKind::Interrupted => format!("C09/{comp}/interrupted/different-output/{mode}"),
+        _ => format!("C09/{comp}/fault-swallowed/{mode}"),
+    };
+    let c = if r0.err {
+        "R0 is Err".to_string()
+    } else if got.data.len() < r0.data.len() {
+        format!("result SHORTER by {} bytes", r0.data.len() - got.data.len())
+    } else if got.data != r0.data {
+        format!("result differs at byte {}", first_diff(&r0.data, &got.data))
+    } else {
+        "metadata differs".to_string()
+    };
+    ctx.violation(
+        sig,
+        format!(
+            "{}: injected {} error at call {} ({mode}, raised {raised}x) ended in a clean result: R0 = {}, this run = {} ({c})",
+            what(),
+            kind_name(f.kind),
+            f.at_call,
+            r0.brief(),
+            got.brief()
+        ),
+        replay(),
+    );
+}
+
+fn fault_prefix(comp: &str, k: FaultKind) -> String {
+    match k {
+        FaultKind::Interrupted => format!("C09/{comp}/interrupted"),
+        _ => format!("C09/{comp}/fault"),
+    }
+}
+
+/// Fault call indices for a clean run of `n` calls: all for n <= 64, else the first and last
+/// ones, the calls adjacent to the given stream offsets, plus 64 sampled ones.
+fn fault_points(n: usize, offsets: &[u32], boundaries: &[usize], rng: &mut ChaCha8Rng, all_upto: usize, sampled: usize) -> Vec<usize> {
+    if n <= all_upto {
+        return (0..n).collect();
+    }
+    let mut v: Vec<usize> = vec![0, 1, 2, 3, n - 4, n - 3, n - 2, n - 1];
+    for b in boundaries {
+        // first call that starts at or after the boundary, and its neighbours
+        let i = offsets.partition_point(|o| (*o as usize) < *b);
+        for d in [-1i64, 0, 1] {
+            let k = i as i64 + d;
+            if k >= 0 && (k as usize) < n {
+                v.push(k as usize);
+            }
+        }
+    }
+    for _ in 0..sampled {
+        v.push(rng.gen_range(0..n));
+    }
+    v.sort_unstable();
+    v.dedup();
+    v
+}
+
+// ------------------------------------------------------------------------------------------
+// schedules
+
+fn sched_json(s: &Sched) -> Value {
+    match s {
+        Sched::All => json!("all"),
+        Sched::Fixed(n) => json!({"fixed": n}),
+        Sched::Cycle(v) => json!({"cycle": v}),
+        Sched::SplitAt(v) => json!({"split_at": v}),
+        Sched::Random(s, m) => json!({"random_seed": s, "max": m}),
+    }
+}
+
+/// Adversarial schedules for a stream of `len` bytes with the given layer boundaries.
+fn adversarial(len: usize, boundaries: &[usize], seeds: &[u64], thorough: bool) -> Vec<Sched> {
+    let mut v = vec![
+        Sched::Fixed(1),
+        Sched::Fixed(2),
+        Sched::Fixed(3),
+        Sched::Fixed(7),
+        Sched::Fixed(64),
+        Sched::Fixed(512),
+        Sched::Fixed(8192),
+        Sched::Cycle(vec![1, 511, 512, 513]),
+        Sched::Cycle(vec![8191, 1, 8192, 8193]),
+    ];
+    if thorough {
+        v.extend([
+            Sched::Fixed(63),
+            Sched::Fixed(65),
+            Sched::Fixed(511),
+            Sched::Fixed(513),
+            Sched::Fixed(8191),
+            Sched::Fixed(8193),
+            Sched::Cycle(vec![1, 2, 3, 5, 8, 13, 21]),
+            Sched::Cycle(vec![4, 1023, 1]),
+        ]);
+    }
+    if !boundaries.is_empty() {
+        let mut sp = vec![];
+        for b in boundaries {
+            for d in [-1i64, 0, 1] {
+                let o = *b as i64 + d;
+                if o > 0 && (o as usize) < len {
+                    sp.push(o as usize);
+                }
+            }
+        }
+        sp.sort_unstable();
+        sp.dedup();
+        if !sp.is_empty() {
+            v.push(Sched::SplitAt(sp));
+        }
+        let exact: Vec<usize> = boundaries.iter().copied().filter(|b| *b > 0 && *b < len).collect();
+        if !exact.is_empty() {
+            v.push(Sched::SplitAt(exact));
+        }
+    }
+    for (i, s) in seeds.iter().enumerate() {
+        v.push(Sched::Random(*s, [5usize, 700, 9000, 100][i % 4]));
+    }
+    v
+}
+
+/// Layer boundaries of an OpenPGP packet stream: every packet start, every header end and every
+/// partial chunk edge of the outermost framing (taken from the reference deframer).
+fn stream_boundaries(data: &[u8]) -> Vec<usize> {
+    let mut out = vec![];
+    let Ok(pkts) = rfc::frame::deframe(data) else {
+        return out;
+    };
+    for p in &pkts {
+        out.push(p.offset);
+        out.push(p.offset + p.encoded_len);
+        if p.partial_chunks.is_empty() {
+            out.push(p.offset + p.encoded_len - p.body.len());
+        } else {
+            // tag octet, then (length octet, chunk)*
+            let mut o = p.offset + 1;
+            for c in &p.partial_chunks {
+                o += 1;
+                out.push(o);
+                o += *c as usize;
+                out.push(o);
+            }
+        }
+    }
+    out.sort_unstable();
+    out.dedup();
+    out
+}
+
+fn consumers_buf(thorough: bool) -> Vec<Consume> {
+    let mut v = Consume::all_basic();
+    v.push(Consume::Read(8192));
+    v.push(Consume::Read(8193));
+    if thorough {
+        v.extend([
+            Consume::Read(2),
+            Consume::Read(511),
+            Consume::Read(513),
+            Consume::Read(8191),
+            Consume::Buf(512),
+            Consume::Buf(8191),
+            Consume::Mixed(1),
+            Consume::Mixed(700),
+            Consume::ReadCycle(vec![8191, 1, 2]),
+        ]);
+    }
+    v
+}
+
+fn payload(rng: &mut ChaCha8Rng, n: usize, text: bool) -> Vec<u8> {
+    if text {
+        // compressible UTF-8 text with CRLF line ends and multi-octet characters (legal for Utf8
+        // literals; exercises the CR|LF and the UTF-8 carry states across read boundaries)
+        const WORDS: [&str; 8] = ["abc", "de fg", "h", "é", "€uro", "𝄞", " ", "klmno pq"];
+        let mut v = Vec::with_capacity(n + 16);
+        while v.len() < n {
+            let l = rng.gen_range(0..14usize);
+            for _ in 0..l {
+                v.extend_from_slice(WORDS[rng.gen_range(0..8usize)].as_bytes());
+            }
+            v.extend_from_slice(b"\r\n");
+        }
+        v.truncate(n);
+        if let Err(e) = std::str::from_utf8(&v) {
+            for b in v.iter_mut().skip(e.valid_up_to()) {
+                *b = b'.';
+            }
+        }
+        if v.last() == Some(&b'\r') {
+            *v.last_mut().unwrap() = b'.';
+        }
+        v
+    } else {
+        let mut v = vec![0u8; n];
+        rng.fill_bytes(&mut v);
+        v
+    }
+}
+
+// ------------------------------------------------------------------------------------------
 
 pub fn run(ctx: &mut Ctx) {
-    ctx.inconclusive("monitor not built yet");
+    // Safety net: a panic outside the guarded library calls (a harness fault, or a library panic in
+    // a place no guard covers) must not take the shard down silently.
+    let env = MsgEnv::new();
+    let fams: [(&str, &dyn Fn(&mut Ctx)); 5] = [
+        ("S", &family_small),
+        ("D", &family_dearmor),
+        ("E", &family_streams),
+        ("K", &|c: &mut Ctx| family_keys(c, &env)),
+        ("M", &|c: &mut Ctx| family_messages(c, &env)),
+    ];
+    for (name, f) in fams {
+        let before = ctx.case_counter;
+        let t0 = crate::core::thread_cpu_s();
+        let r = crate::core::guard(|| f(&mut *ctx));
+        ctx.tally(&format!("cpu_ms.family.{name}"), ((crate::core::thread_cpu_s() - t0) * 1000.0) as u64);
+        if let Err(p) = r {
+            ctx.inconclusive(format!("family {name}: unguarded panic after case {} (this shard lost the rest of the family): {} at {}", ctx.case_counter.saturating_sub(before), p.msg, p.loc));
+        }
+    }
+}
+
+// ==========================================================================================
+// Family S: small components, exhaustive compositions
+
+const B64: &[u8; 64] = b"ABCDEFGHIJKLMNOPQRSTUVWXYZabcdefghijklmnopqrstuvwxyz0123456789+/";
+
+fn run_b64_decoder(text: &Arc<Vec<u8>>, sched: &Sched, cons: &Consume, fault: Option<Fault>) -> (Out, LogRef) {
+    let src = Src::new(text, sched).fault(fault);
+    let log = src.log();
+    let mut d = Base64Decoder::new(src);
+    let r = drain_read(&mut d, cons);
+    let out = match r.err {
+        None => Out::ok(r.data, ""),
+        Some(e) => Out::err("read", e, r.data),
+    };
+    (out, log)
+}
+
+fn run_b64_reader(text: &Arc<Vec<u8>>, sched: &Sched, cons: &Consume, fault: Option<Fault>) -> (Out, LogRef) {
+    let src = Src::new(text, sched).fault(fault);
+    let log = src.log();
+    let mut d = Base64Reader::new(src);
+    let r = drain_read(&mut d, cons);
+    let out = match r.err {
+        None => Out::ok(r.data, ""),
+        Some(e) => Out::err("read", e, r.data),
+    };
+    (out, log)
+}
+
+fn run_b64_stack(text: &Arc<Vec<u8>>, sched: &Sched, cons: &Consume, fault: Option<Fault>) -> (Out, LogRef) {
+    let src = Src::new(text, sched).fault(fault);
+    let log = src.log();
+    let mut d = Base64Decoder::new(Base64Reader::new(src));
+    let r = drain_read(&mut d, cons);
+    let out = match r.err {
+        None => Out::ok(r.data, ""),
+        Some(e) => Out::err("read", e, r.data),
+    };
+    (out, log)
+}
+
+fn run_normalized(text: &Arc<Vec<u8>>, lb: LineBreak, sched: &Sched, cons: &Consume, fault: Option<Fault>) -> (Out, LogRef) {
+    let src = Src::new(text, sched).fault(fault);
+    let log = src.log();
+    let mut d = NormalizedReader::new(src, lb);
+    let r = drain_read(&mut d, cons);
+    let out = match r.err {
+        None => Out::ok(r.data, ""),
+        Some(e) => Out::err("read", e, r.data),
+    };
+    (out, log)
+}
+
+fn lb_name(lb: LineBreak) -> &'static str {
+    match lb {
+        LineBreak::Crlf => "crlf",
+        LineBreak::Lf => "lf",
+        LineBreak::Cr => "cr",
+    }
+}
+
+/// LineWriter with width 4 (small scope) or 64: chunks written with write_all, then finish().
+fn run_line_writer(data: &[u8], splits: &[usize], wide: bool, lb: LineBreak, sink_sched: &Sched, fault: Option<Fault>) -> (Out, usize, usize) {
+    let mut sink = Sink::new(sink_sched).fault(fault);
+    let out = sink.out.clone();
+    let log = sink.log.clone();
+    let res: io::Result<()> = (|| {
+        if wide {
+            let mut w = LineWriter::<_, U64>::new(&mut sink, lb);
+            for c in chunks_by_splits(data, splits) {
+                w.write_all(c)?;
+            }
+            w.finish()?;
+        } else {
+            let mut w = LineWriter::<_, U4>::new(&mut sink, lb);
+            for c in chunks_by_splits(data, splits) {
+                w.write_all(c)?;
+            }
+            w.finish()?;
+        }
+        Ok(())
+    })();
+    let bytes = out.borrow().clone();
+    let l = log.borrow();
+    let o = match res {
+        Ok(()) => Out::ok(bytes, ""),
+        Err(e) => Out::err("write", e, bytes),
+    };
+    (o, l.calls, l.faults_raised)
+}
+
+fn nth_string(mut idx: u64, len: usize, alpha: &[u8]) -> Vec<u8> {
+    let mut s = vec![0u8; len];
+    for c in s.iter_mut() {
+        *c = alpha[(idx % alpha.len() as u64) as usize];
+        idx /= alpha.len() as u64;
+    }
+    s
+}
+
+fn small_consumers() -> Vec<Consume> {
+    vec![Consume::ToEnd, Consume::Read(1), Consume::Read(2), Consume::Read(3), Consume::Read(5), Consume::Read(4096)]
+}
+
+fn family_small(ctx: &mut Ctx) {
+    let nmax = ctx.qt(10usize, 12usize);
+    let cons = small_consumers();
+
+    // --- S1: Base64Decoder over a raw source, Base64Reader, and both stacked -----------------
+    // texts: canonical base64 of d bytes (d = 0..=nmax*3/4) without and with line breaks
+    for variant in 0..3u32 {
+        for dlen in 0..=9usize {
+            if !ctx.mine() {
+                continue;
+            }
+            let mut rng = Ctx::fixed_rng("c09.b64", dlen as u64);
+            let data: Vec<u8> = (0..dlen).map(|_| rng.gen()).collect();
+            let enc = rfc::armor::b64_encode(&data).into_bytes();
+            // variant 0: plain, 1: LF after every 4 chars, 2: CRLF in the middle
+            let mut text = vec![];
+            for (i, c) in enc.iter().enumerate() {
+                if variant == 1 && i > 0 && i % 4 == 0 {
+                    text.push(b'\n');
+                }
+                if variant == 2 && i == enc.len() / 2 {
+                    text.extend_from_slice(b"\r\n");
+                }
+                text.push(*c);
+            }
+            if text.len() > nmax {
+                continue;
+            }
+            let n = text.len();
+            let text = Arc::new(text);
+            let stripped: Vec<u8> = text.iter().copied().filter(|c| *c != b'\r' && *c != b'\n').collect();
+            describe_case(&format!("S1 b64 variant {variant} dlen {dlen} text {:?}", String::from_utf8_lossy(&text)));
+            ctx.cover(&("S1", variant, dlen));
+            ctx.seen("S.b64.text_len", n.to_string());
+
+            let comps: [(&str, bool); 3] = [("base64-decoder", variant == 0), ("base64-reader", true), ("base64-stack", true)];
+            for (comp, applicable) in comps {
+                if !applicable {
+                    continue;
+                }
+                let runner = |sc: &Sched, c: &Consume, f: Option<Fault>| match comp {
+                    "base64-decoder" => run_b64_decoder(&text, sc, c, f),
+                    "base64-reader" => run_b64_reader(&text, sc, c, f),
+                    _ => run_b64_stack(&text, sc, c, f),
+                };
+                let r0 = guarded(ctx, &format!("C09/{comp}/sched"), || json!({"text": hexs(&text)}), || runner(&Sched::All, &Consume::ToEnd, None).0);
+                ctx.eval();
+                let Some(r0) = r0 else { continue };
+                // anchor R0 on the independent reference: the all-at-once history must itself be right
+                let want: &[u8] = if comp == "base64-reader" { &stripped } else { &data };
+                if r0.err || r0.data != want {
+                    ctx.violation(
+                        format!("C09/{comp}/r0-wrong"),
+                        format!("all-at-once run of {comp} over {:?} gives {} (want {} bytes)", String::from_utf8_lossy(&text), r0.brief(), want.len()),
+                        json!({"text": hexs(&text)}),
+                    );
+                    continue;
+                }
+                let ncomp = 1u64 << n.saturating_sub(1);
+                for mask in 0..ncomp {
+                    let sc = Sched::SplitAt(composition_splits(n, mask));
+                    for c in &cons {
+                        let replay = || json!({"family": "S1", "component": comp, "text": hexs(&text), "mask": mask, "consumer": c.name()});
+                        let got = guarded(ctx, &format!("C09/{comp}/sched"), replay, || runner(&sc, c, None).0);
+                        ctx.eval();
+                        let Some(got) = got else { continue };
+                        judge(ctx, comp, &r0, &got, &|| format!("{comp} over {:?}, source pieces split at {:?}, consumer {}", String::from_utf8_lossy(&text), composition_splits(n, mask), c.name()), &replay);
+                    }
+                }
+                ctx.tally(&format!("S.{comp}.compositions"), ncomp);
+                // faults: every call index of two schedules
+                for sc in [Sched::All, Sched::Fixed(1), Sched::Fixed(3)] {
+                    let Some((_, log)) = guarded(ctx, &format!("C09/{comp}/sched"), || json!({"text": hexs(&text)}), || runner(&sc, &Consume::Read(2), None)) else { continue };
+                    let ncalls = log.lock().unwrap().calls;
+                    for k in 0..ncalls {
+                        for (kind, sticky) in [(FaultKind::Other, false), (FaultKind::Other, true), (FaultKind::Interrupted, false)] {
+                            let f = Fault { at_call: k, sticky, kind };
+                            let replay = || json!({"family": "S1", "component": comp, "text": hexs(&text), "sched": sched_json(&sc), "fault_call": k, "sticky": sticky, "kind": kind_name(kind)});
+                            let r = guarded(ctx, &fault_prefix(comp, kind), replay, || runner(&sc, &Consume::Read(2), Some(f)));
+                            ctx.eval();
+                            let Some((got, log)) = r else { continue };
+                            let raised = log.lock().unwrap().faults_raised;
+                            judge_fault(ctx, comp, &r0, &got, raised, &f, &|| format!("{comp} over {:?} sched {}", String::from_utf8_lossy(&text), sc.name()), &replay);
+                        }
+                    }
+                }
+            }
+        }
+    }
+
+    // --- S2: long base64 streams (decoder buffer 1024 / 768), adversarial schedules ------------
+    let long_sizes: Vec<usize> = if ctx.quick() {
+        vec![1, 3, 765, 767, 768, 769, 1536, 1537, 3000]
+    } else {
+        vec![1, 2, 3, 48, 765, 766, 767, 768, 769, 770, 1535, 1536, 1537, 3000, 8192, 24581]
+    };
+    for (i, dlen) in long_sizes.iter().enumerate() {
+        for lines in [false, true] {
+            if !ctx.mine() {
+                continue;
+            }
+            let mut rng = ctx.rng("S2", i as u64);
+            let data = payload(&mut rng, *dlen, false);
+            let enc = rfc::armor::b64_encode(&data).into_bytes();
+            let mut text = vec![];
+            for (j, c) in enc.iter().enumerate() {
+                if lines && j > 0 && j % 64 == 0 {
+                    text.push(b'\n');
+                }
+                text.push(*c);
+            }
+            let n = text.len();
+            let text = Arc::new(text);
+            ctx.cover(&("S2", dlen, lines));
+            describe_case(&format!("S2 long base64 dlen {dlen} lines {lines}"));
+            let seeds: Vec<u64> = (0..ctx.qt(3, 8)).map(|_| rng.gen()).collect();
+            let scheds = adversarial(n, &[1024, 2048, 768], &seeds, !ctx.quick());
+            let lcons = [Consume::ToEnd, Consume::Read(1), Consume::Read(7), Consume::Read(767), Consume::Read(768), Consume::Read(769), Consume::Read(4096)];
+            let comps: Vec<&str> = if lines { vec!["base64-stack"] } else { vec!["base64-decoder", "base64-stack"] };
+            for comp in comps {
+                let runner = |sc: &Sched, c: &Consume, f: Option<Fault>| match comp {
+                    "base64-decoder" => run_b64_decoder(&text, sc, c, f),
+                    _ => run_b64_stack(&text, sc, c, f),
+                };
+                let Some(r0) = guarded(ctx, &format!("C09/{comp}/sched"), || json!({"dlen": dlen}), || runner(&Sched::All, &Consume::ToEnd, None).0) else { continue };
+                ctx.eval();
+                if r0.err || r0.data != data {
+                    ctx.violation(format!("C09/{comp}/r0-wrong"), format!("all-at-once run over {} chars gives {}", n, r0.brief()), json!({"family": "S2", "dlen": dlen, "lines": lines}));
+                    continue;
+                }
+                for sc in &scheds {
+                    for c in &lcons {
+                        let replay = || json!({"family": "S2", "component": comp, "dlen": dlen, "lines": lines, "sched": sched_json(sc), "consumer": c.name(), "text": hexs(&text)});
+                        let got = guarded(ctx, &format!("C09/{comp}/sched"), replay, || runner(sc, c, None).0);
+                        ctx.eval();
+                        let Some(got) = got else { continue };
+                        judge(ctx, comp, &r0, &got, &|| format!("{comp} over {n} base64 chars (lines={lines}), source {}, consumer {}", sc.name(), c.name()), &replay);
+                    }
+                }
+            }
+        }
+    }
+
+    // --- S3: NormalizedReader: every string over {CR, LF, a} x every composition ---------------
+    let slen = ctx.qt(7usize, 8usize);
+    for len in 0..=slen {
+        let nstr = 3u64.pow(len as u32);
+        for group in 0..nstr.div_ceil(27) {
+            if !ctx.mine() {
+                continue;
+            }
+            for si in group * 27..((group + 1) * 27).min(nstr) {
+                let s = Arc::new(nth_string(si, len, b"\r\na"));
+                ctx.cover(&("S3", &*s));
+                for lb in [LineBreak::Crlf, LineBreak::Lf, LineBreak::Cr] {
+                    let comp = "normalized-reader";
+                    let Some(r0) = guarded(ctx, "C09/normalized-reader/sched", || json!({"s": hexs(&s)}), || run_normalized(&s, lb, &Sched::All, &Consume::ToEnd, None).0) else { continue };
+                    ctx.eval();
+                    // independent anchor (LF and CRLF -> line break; lone CR kept)
+                    let want = ref_normalize(&s, lb);
+                    if r0.err || r0.data != want {
+                        ctx.violation("C09/normalized-reader/r0-wrong", format!("NormalizedReader({:?},{}) all-at-once gives {:?}, reference {:?}", String::from_utf8_lossy(&s), lb_name(lb), String::from_utf8_lossy(&r0.data), String::from_utf8_lossy(&want)), json!({"s": hexs(&s), "lb": lb_name(lb)}));
+                        continue;
+                    }
+                    let ncomp = 1u64 << len.saturating_sub(1);
+                    for mask in 0..ncomp {
+                        let sc = Sched::SplitAt(composition_splits(len, mask));
+                        for c in [Consume::ToEnd, Consume::Read(1), Consume::Read(3)] {
+                            let replay = || json!({"family": "S3", "s": hexs(&s), "lb": lb_name(lb), "mask": mask, "consumer": c.name()});
+                            let got = guarded(ctx, "C09/normalized-reader/sched", replay, || run_normalized(&s, lb, &sc, &c, None).0);
+                            ctx.eval();
+                            let Some(got) = got else { continue };
+                            judge(ctx, comp, &r0, &got, &|| format!("NormalizedReader({:?},{}) source split at {:?} consumer {}", String::from_utf8_lossy(&s), lb_name(lb), composition_splits(len, mask), c.name()), &replay);
+                        }
+                    }
+                }
+            }
+        }
+    }
+    // window edge (512) with every pattern of length <= 3 straddling it, adversarial schedules, faults
+    for plen in 1..=3usize {
+        for pi in 0..3u64.pow(plen as u32) {
+            if !ctx.mine() {
+                continue;
+            }
+            let pat = nth_string(pi, plen, b"\r\na");
+            ctx.cover(&("S3e", &pat));
+            for edge in [512usize, 1024] {
+                for shift in 0..=plen {
+                    let mut s = vec![b'x'; edge - shift];
+                    s.extend_from_slice(&pat);
+                    s.extend_from_slice(b"yz");
+                    let n = s.len();
+                    let s = Arc::new(s);
+                    let lb = [LineBreak::Crlf, LineBreak::Lf, LineBreak::Cr][(pi as usize + shift) % 3];
+                    let Some(r0) = guarded(ctx, "C09/normalized-reader/sched", || json!({"s": hexs(&s)}), || run_normalized(&s, lb, &Sched::All, &Consume::ToEnd, None).0) else { continue };
+                    ctx.eval();
+                    let want = ref_normalize(&s, lb);
+                    if r0.err || r0.data != want {
+                        ctx.violation("C09/normalized-reader/r0-wrong", format!("NormalizedReader all-at-once differs from reference for pattern {:?} at {}", String::from_utf8_lossy(&pat), edge - shift), json!({"s": hexs(&s), "lb": lb_name(lb)}));
+                        continue;
+                    }
+                    let scheds = [
+                        Sched::Fixed(1),
+                        Sched::Fixed(511),
+                        Sched::Fixed(513),
+                        Sched::SplitAt(vec![edge - 1, edge, edge + 1]),
+                        Sched::SplitAt(vec![edge - shift, edge]),
+                        Sched::Cycle(vec![511, 1, 2]),
+                        Sched::Random(pi * 7 + shift as u64, 300),
+                    ];
+                    for sc in &scheds {
+                        for c in [Consume::ToEnd, Consume::Read(1), Consume::Read(511), Consume::Read(600)] {
+                            let replay = || json!({"family": "S3e", "s": hexs(&s), "lb": lb_name(lb), "sched": sched_json(sc), "consumer": c.name()});
+                            let got = guarded(ctx, "C09/normalized-reader/sched", replay, || run_normalized(&s, lb, sc, &c, None).0);
+                            ctx.eval();
+                            let Some(got) = got else { continue };
+                            judge(ctx, "normalized-reader", &r0, &got, &|| format!("NormalizedReader pattern {:?} at offset {} ({} bytes) source {} consumer {}", String::from_utf8_lossy(&pat), edge - shift, n, sc.name(), c.name()), &replay);
+                        }
+                    }
+                    // faults at every call of three schedules
+                    if shift == 0 && edge == 512 {
+                        for sc in [Sched::All, Sched::Fixed(200), Sched::SplitAt(vec![511, 512, 513])] {
+                            let Some((_, log)) = guarded(ctx, "C09/normalized-reader/sched", || json!({"s": hexs(&s)}), || run_normalized(&s, lb, &sc, &Consume::Read(100), None)) else { continue };
+                            let ncalls = log.lock().unwrap().calls;
+                            for k in 0..ncalls {
+                                for (kind, sticky) in [(FaultKind::Other, false), (FaultKind::Other, true), (FaultKind::Interrupted, false)] {
+                                    let f = Fault { at_call: k, sticky, kind };
+                                    let replay = || json!({"family": "S3e", "s": hexs(&s), "lb": lb_name(lb), "sched": sched_json(&sc), "fault_call": k, "sticky": sticky, "kind": kind_name(kind)});
+                                    let r = guarded(ctx, &fault_prefix("normalized-reader", kind), replay, || run_normalized(&s, lb, &sc, &Consume::Read(100), Some(f)));
+                                    ctx.eval();
+                                    let Some((got, log)) = r else { continue };
+                                    let raised = log.lock().unwrap().faults_raised;
+                                    judge_fault(ctx, "normalized-reader", &r0, &got, raised, &f, &|| format!("NormalizedReader over {n} bytes sched {}", sc.name()), &replay);
+                                }
+                            }
+                        }
+                    }
+                }
+            }
+        }
+    }
+
+    // --- S4: LineWriter (width 4): all compositions of the written chunks; sink schedules --------
+    for len in 0..=nmax {
+        if !ctx.mine() {
+            continue;
+        }
+        let data: Vec<u8> = (0..len).map(|i| b'a' + i as u8).collect();
+        ctx.cover(&("S4", len));
+        for lb in [LineBreak::Lf, LineBreak::Crlf] {
+            let Some((r0, _, _)) = guarded(ctx, "C09/line-writer/sched", || json!({"len": len}), || run_line_writer(&data, &[], false, lb, &Sched::All, None)) else { continue };
+            ctx.eval();
+            let want = ref_lines(&data, 4, lb);
+            if r0.err || r0.data != want {
+                ctx.violation("C09/line-writer/r0-wrong", format!("LineWriter<4> single write of {len} bytes gives {:?}, reference {:?}", String::from_utf8_lossy(&r0.data), String::from_utf8_lossy(&want)), json!({"len": len, "lb": lb_name(lb)}));
+                continue;
+            }
+            let ncomp = 1u64 << len.saturating_sub(1);
+            for mask in 0..ncomp {
+                let splits = composition_splits(len, mask);
+                for sink_sc in [Sched::All, Sched::Fixed(1), Sched::Fixed(3)] {
+                    let replay = || json!({"family": "S4", "len": len, "lb": lb_name(lb), "mask": mask, "sink": sched_json(&sink_sc)});
+                    let got = guarded(ctx, "C09/line-writer/sched", replay, || run_line_writer(&data, &splits, false, lb, &sink_sc, None).0);
+                    ctx.eval();
+                    let Some(got) = got else { continue };
+                    judge(ctx, "line-writer", &r0, &got, &|| format!("LineWriter<4>({}) {len} bytes written in chunks split at {:?}, sink {}", lb_name(lb), splits, sink_sc.name()), &replay);
+                }
+            }
+            // sink faults at every call, written in 3-byte chunks
+            let splits: Vec<usize> = (1..len).filter(|i| i % 3 == 0).collect();
+            let Some((_, ncalls, _)) = guarded(ctx, "C09/line-writer/sched", || json!({"len": len}), || run_line_writer(&data, &splits, false, lb, &Sched::Fixed(2), None)) else { continue };
+            for k in 0..ncalls {
+                for (kind, sticky) in [(FaultKind::Other, false), (FaultKind::Other, true), (FaultKind::Interrupted, false)] {
+                    let f = Fault { at_call: k, sticky, kind };
+                    let replay = || json!({"family": "S4", "len": len, "lb": lb_name(lb), "fault_call": k, "sticky": sticky, "kind": kind_name(kind)});
+                    let r = guarded(ctx, &fault_prefix("line-writer", kind), replay, || run_line_writer(&data, &splits, false, lb, &Sched::Fixed(2), Some(f)));
+                    ctx.eval();
+                    let Some((got, _, raised)) = r else { continue };
+                    judge_fault(ctx, "line-writer", &r0, &got, raised, &f, &|| format!("LineWriter<4> {len} bytes, sink accepts 2 bytes per write"), &replay);
+                }
+            }
+        }
+    }
+    // width 64, random chunkings
+    for i in 0..ctx.qt(100u64, 1000u64) {
+        if !ctx.mine() {
+            continue;
+        }
+        let mut rng = ctx.rng("S4w", i);
+        let len = [0usize, 1, 63, 64, 65, 127, 128, 129, 640, 1000][(i % 10) as usize];
+        let data = payload(&mut rng, len, false);
+        ctx.cover(&("S4w", i));
+        let Some((r0, _, _)) = guarded(ctx, "C09/line-writer/sched", || json!({"len": len}), || run_line_writer(&data, &[], true, LineBreak::Lf, &Sched::All, None)) else { continue };
+        ctx.eval();
+        if r0.err || r0.data != ref_lines(&data, 64, LineBreak::Lf) {
+            ctx.violation("C09/line-writer/r0-wrong", format!("LineWriter<64> single write of {len} bytes differs from reference"), json!({"len": len, "data": hexs(&data)}));
+            continue;
+        }
+        for j in 0..8 {
+            let mut splits: Vec<usize> = (0..rng.gen_range(0..12usize)).map(|_| rng.gen_range(0..=len)).filter(|o| *o > 0 && *o < len).collect();
+            if j == 0 {
+                splits = (1..len).collect();
+            }
+            splits.sort_unstable();
+            splits.dedup();
+            let sink_sc = [Sched::All, Sched::Fixed(1), Sched::Fixed(64), Sched::Random(i, 70)][j % 4].clone();
+            let replay = || json!({"family": "S4w", "data": hexs(&data), "splits": splits, "sink": sched_json(&sink_sc)});
+            let got = guarded(ctx, "C09/line-writer/sched", replay, || run_line_writer(&data, &splits, true, LineBreak::Lf, &sink_sc, None).0);
+            ctx.eval();
+            let Some(got) = got else { continue };
+            judge(ctx, "line-writer", &r0, &got, &|| format!("LineWriter<64> {len} bytes, {} chunks, sink {}", splits.len() + 1, sink_sc.name()), &replay);
+        }
+    }
+
+    // --- S5: SignatureHasher as io::Write: chunked writes => same digest ----------------------
+    let key = zoo::key(&zoo::Spec::simple(false, zoo::Alg::Ed25519Legacy, None), 0);
+    let signer = RecSigner::dry(&key.primary_key);
+    let mk = |typ: SignatureType| {
+        let mut c = SignatureConfig::v4(typ, key.primary_key.algorithm(), HashAlgorithm::Sha256);
+        c.hashed_subpackets = vec![
+            Subpacket::regular(SubpacketData::SignatureCreationTime(Timestamp::from_secs(1_700_000_000))).unwrap(),
+            Subpacket::regular(SubpacketData::IssuerFingerprint(key.primary_key.fingerprint())).unwrap(),
+        ];
+        c
+    };
+    let digest_of = |typ: SignatureType, data: &[u8], splits: &[usize]| -> Result<Vec<u8>, String> {
+        let mut h = mk(typ).into_hasher().map_err(|e| e.to_string())?;
+        for c in chunks_by_splits(data, splits) {
+            h.write_all(c).map_err(|e| e.to_string())?;
+        }
+        h.sign(&signer, &Password::empty()).map_err(|e| e.to_string())?;
+        let seen = signer.take();
+        if seen.len() != 1 {
+            return Err(format!("{} digests seen", seen.len()));
+        }
+        Ok(seen[0].digest.clone())
+    };
+    for i in 0..ctx.qt(120u64, 1200u64) {
+        if !ctx.mine() {
+            continue;
+        }
+        let mut rng = ctx.rng("S5", i);
+        let exhaustive = i < 12;
+        let len = if exhaustive { (i as usize).min(nmax) } else { [100usize, 511, 512, 513, 1024, 4096, 8192, 9000][(i % 8) as usize] };
+        let data: Vec<u8> = (0..len).map(|_| b"\r\n\r\nab \t"[rng.gen_range(0..8usize)]).collect();
+        ctx.cover(&("S5", i));
+        for typ in [SignatureType::Binary, SignatureType::Text] {
+            let tname = if typ == SignatureType::Binary { "binary" } else { "text" };
+            let Some(Ok(d0)) = guarded(ctx, "C09/signature-hasher/sched", || json!({"data": hexs(&data)}), || digest_of(typ, &data, &[])) else {
+                ctx.inconclusive("S5: reference digest run failed");
+                continue;
+            };
+            ctx.eval();
+            let masks: Vec<Vec<usize>> = if exhaustive {
+                (0..1u64 << len.saturating_sub(1)).map(|m| composition_splits(len, m)).collect()
+            } else {
+                (0..6)
+                    .map(|j| {
+                        let mut v: Vec<usize> = if j == 0 { (1..len).collect() } else { (0..rng.gen_range(1..40usize)).map(|_| rng.gen_range(1..len.max(2))).filter(|o| *o < len).collect() };
+                        v.sort_unstable();
+                        v.dedup();
+                        v
+                    })
+                    .collect()
+            };
+            for splits in &masks {
+                let replay = || json!({"family": "S5", "type": tname, "data": hexs(&data), "splits": splits});
+                let got = guarded(ctx, "C09/signature-hasher/sched", replay, || digest_of(typ, &data, splits));
+                ctx.eval();
+                match got {
+                    Some(Ok(d)) if d == d0 => {}
+                    Some(Ok(_)) => ctx.violation(
+                        format!("C09/signature-hasher/sched/digest-differs/{tname}"),
+                        format!("SignatureHasher ({tname}) digest of {:?} depends on the write chunking {:?}", String::from_utf8_lossy(&data), splits),
+                        replay(),
+                    ),
+                    Some(Err(e)) => ctx.violation("C09/signature-hasher/sched/ok-became-err", format!("chunked hashing failed: {e}"), replay()),
+                    None => {}
+                }
+            }
+        }
+    }
+}
+
+fn ref_normalize(s: &[u8], lb: LineBreak) -> Vec<u8> {
+    let rep: &[u8] = match lb {
+        LineBreak::Crlf => b"\r\n",
+        LineBreak::Lf => b"\n",
+        LineBreak::Cr => b"\r",
+    };
+    let mut out = vec![];
+    let mut i = 0;
+    while i < s.len() {
+        if s[i] == b'\r' && i + 1 < s.len() && s[i + 1] == b'\n' {
+            out.extend_from_slice(rep);
+            i += 2;
+        } else if s[i] == b'\n' {
+            out.extend_from_slice(rep);
+            i += 1;
+        } else {
+            out.push(s[i]);
+            i += 1;
+        }
+    }
+    out
+}
+
+fn ref_lines(data: &[u8], width: usize, lb: LineBreak) -> Vec<u8> {
+    let rep: &[u8] = match lb {
+        LineBreak::Crlf => b"\r\n",
+        LineBreak::Lf => b"\n",
+        LineBreak::Cr => b"\r",
+    };
+    let mut out = vec![];
+    for c in data.chunks(width) {
+        out.extend_from_slice(c);
+        out.extend_from_slice(rep);
+    }
+    out
+}
+
+// ==========================================================================================
+// Family D: Dearmor
+
+fn run_dearmor(text: &Arc<Vec<u8>>, sched: &Sched, cons: &Consume, fault: Option<Fault>) -> (Out, LogRef) {
+    let src = Src::new(text, sched).fault(fault);
+    let log = src.log();
+    let mut d = Dearmor::new(src);
+    let r = drain_read(&mut d, cons);
+    let out = match r.err {
+        None => Out::ok(r.data, format!("typ={:?} headers={:?} checksum={:?}", d.typ, d.headers, d.checksum)),
+        Some(e) => Out::err("read", e, r.data),
+    };
+    (out, log)
+}
+
+fn family_dearmor(ctx: &mut Ctx) {
+    // small armors: payload d bytes, with/without CRC line, with/without header line, CRLF
+    let mut armors: Vec<(String, Vec<u8>, Vec<u8>)> = vec![];
+    for (name, dlen, crc, hdr, crlf) in [
+        ("d3-crc", 3usize, true, false, false),
+        ("d4-nocrc", 4, false, false, false),
+        ("d5-crc-hdr", 5, true, true, false),
+        ("d0-crc", 0, true, false, false),
+        ("d7-crc-crlf", 7, true, true, true),
+        ("d48-crc", 48, true, false, false),
+        ("d49-nocrc", 49, false, false, false),
+    ] {
+        let mut rng = Ctx::fixed_rng("c09.armor", dlen as u64);
+        let data: Vec<u8> = (0..dlen).map(|_| rng.gen()).collect();
+        let nl = if crlf { "\r\n" } else { "\n" };
+        let mut t = format!("-----BEGIN PGP MESSAGE-----{nl}");
+        if hdr {
+            t.push_str(&format!("Comment: x{nl}"));
+        }
+        t.push_str(nl);
+        let enc = rfc::armor::b64_encode(&data);
+        for l in enc.as_bytes().chunks(64) {
+            t.push_str(std::str::from_utf8(l).unwrap());
+            t.push_str(nl);
+        }
+        if crc {
+            let c = rfc::armor::crc24(&data);
+            t.push('=');
+            t.push_str(&rfc::armor::b64_encode(&[(c >> 16) as u8, (c >> 8) as u8, c as u8]));
+            t.push_str(nl);
+        }
+        t.push_str(&format!("-----END PGP MESSAGE-----{nl}"));
+        armors.push((name.to_string(), t.into_bytes(), data));
+    }
+    let cons = [Consume::ToEnd, Consume::Read(1), Consume::Read(2), Consume::Read(3), Consume::Read(64), Consume::Read(4096)];
+    for (name, text, data) in &armors {
+        let n = text.len();
+        let text = Arc::new(text.clone());
+        // R0 (per armor, computed by every shard: cheap)
+        let r0 = guarded(ctx, "C09/dearmor/sched", || json!({"armor": name}), || run_dearmor(&text, &Sched::All, &Consume::ToEnd, None).0);
+        let r0 = match r0 {
+            Some(r) if !r.err && r.data == *data => r,
+            Some(r) => {
+                if ctx.mine() {
+                    ctx.violation("C09/dearmor/r0-wrong", format!("all-at-once Dearmor of a well-formed armor ({name}) gives {}", r.brief()), json!({"armor": hexs(&text)}));
+                }
+                continue;
+            }
+            None => continue,
+        };
+        // schedules: every Fixed(k), every single split, every pair of splits
+        let mut scheds: Vec<Sched> = (1..=n).map(Sched::Fixed).collect();
+        for a in 1..n {
+            scheds.push(Sched::SplitAt(vec![a]));
+        }
+        let pair_step = if ctx.quick() && n > 120 { 3 } else { 1 };
+        for a in (1..n).step_by(pair_step) {
+            for b in (a + 1..n).step_by(pair_step) {
+                scheds.push(Sched::SplitAt(vec![a, b]));
+            }
+        }
+        for (gi, group) in scheds.chunks(64).enumerate() {
+            if !ctx.mine() {
+                continue;
+            }
+            describe_case(&format!("D dearmor {name} schedule group {gi}"));
+            if gi == 3 {
+                ctx.sample(json!({"family": "D", "armor": String::from_utf8_lossy(&text), "schedules_in_group": group.iter().map(sched_json).collect::<Vec<_>>()}));
+            }
+            ctx.tally("D.schedules", group.len() as u64);
+            for (j, sc) in group.iter().enumerate() {
+                ctx.cover(&("D", name, gi, j));
+                for c in &cons[..] {
+                    // the full consumer set for Fixed and single splits, a rotating one for pairs
+                    if matches!(sc, Sched::SplitAt(v) if v.len() == 2) && (gi + j) % cons.len() != cons.iter().position(|x| x == c).unwrap() {
+                        continue;
+                    }
+                    let replay = || json!({"family": "D", "armor": hexs(&text), "sched": sched_json(sc), "consumer": c.name()});
+                    let got = guarded(ctx, "C09/dearmor/sched", replay, || run_dearmor(&text, sc, c, None).0);
+                    ctx.eval();
+                    let Some(got) = got else { continue };
+                    judge(ctx, "dearmor", &r0, &got, &|| format!("Dearmor of armor {name} ({n} bytes), source {} {:?}, consumer {}", sc.name(), sched_json(sc), c.name()), &replay);
+                }
+            }
+        }
+        // faults: every call of four schedules
+        for sc in [Sched::All, Sched::Fixed(1), Sched::Fixed(5), Sched::Fixed(64)] {
+            if !ctx.mine() {
+                continue;
+            }
+            let Some((_, log)) = guarded(ctx, "C09/dearmor/sched", || json!({"armor": name}), || run_dearmor(&text, &sc, &Consume::Read(3), None)) else { continue };
+            let ncalls = log.lock().unwrap().calls;
+            ctx.cover(&("Df", name, sc.name()));
+            for k in 0..ncalls {
+                for (kind, sticky) in [(FaultKind::Other, false), (FaultKind::Other, true), (FaultKind::Interrupted, false)] {
+                    let f = Fault { at_call: k, sticky, kind };
+                    let replay = || json!({"family": "D", "armor": hexs(&text), "sched": sched_json(&sc), "fault_call": k, "sticky": sticky, "kind": kind_name(kind)});
+                    let r = guarded(ctx, &fault_prefix("dearmor", kind), replay, || run_dearmor(&text, &sc, &Consume::Read(3), Some(f)));
+                    ctx.eval();
+                    let Some((got, log)) = r else { continue };
+                    let raised = log.lock().unwrap().faults_raised;
+                    judge_fault(ctx, "dearmor", &r0, &got, raised, &f, &|| format!("Dearmor of armor {name} sched {}", sc.name()), &replay);
+                }
+            }
+        }
+    }
+}
+
+
+// ==========================================================================================
+// Family E: stream encryptors / decryptors, PacketParser
+
+const CFB_KEY: [u8; 32] = [0x42; 32];
+
+fn alg_id(a: SymmetricKeyAlgorithm) -> u8 {
+    u8::from(a)
+}
+
+fn run_cfb_enc(alg: SymmetricKeyAlgorithm, plain: &Arc<Vec<u8>>, sched: &Sched, cons: &Consume, fault: Option<Fault>) -> (Out, LogRef) {
+    let src = Src::new(plain, sched).fault(fault);
+    let log = src.log();
+    let rng = ChaCha8Rng::seed_from_u64(0xC09);
+    let out = match alg.stream_encryptor(rng, &CFB_KEY[..alg.key_size()], src) {
+        Err(e) => Out::err("new", e, vec![]),
+        Ok(mut enc) => {
+            let r = drain_read(&mut enc, cons);
+            match r.err {
+                None => Out::ok(r.data, ""),
+                Some(e) => Out::err("read", e, r.data),
+            }
+        }
+    };
+    (out, log)
+}
+
+#[derive(Clone, Copy, Debug, PartialEq, Eq)]
+enum CfbMode {
+    CheckFirst,
+    Streaming,
+    Unprotected,
+}
+
+fn run_cfb_dec(alg: SymmetricKeyAlgorithm, mode: CfbMode, ct: &Arc<Vec<u8>>, sched: &Sched, cons: &Consume, fault: Option<Fault>) -> (Out, LogRef) {
+    let src = Src::new(ct, sched).fault(fault);
+    let log = src.log();
+    let key = &CFB_KEY[..alg.key_size()];
+    let dec = match mode {
+        CfbMode::CheckFirst => alg.stream_decryptor_protected(Seipdv1ReadMode::default(), key, src),
+        CfbMode::Streaming => alg.stream_decryptor_protected(Seipdv1ReadMode::Streaming, key, src),
+        CfbMode::Unprotected => alg.stream_decryptor_unprotected(key, src),
+    };
+    let out = match dec {
+        Err(e) => Out::err("new", e, vec![]),
+        Ok(mut dec) => {
+            let r = drain(&mut dec, cons);
+            match r.err {
+                None => Out::ok(r.data, ""),
+                Some(e) => Out::err("read", e, r.data),
+            }
+        }
+    };
+    (out, log)
+}
+
+const AEAD_SALT: [u8; 32] = [0x5a; 32];
+
+fn run_aead_enc(sym: SymmetricKeyAlgorithm, aead: AeadAlgorithm, cs: ChunkSize, plain: &Arc<Vec<u8>>, sched: &Sched, cons: &Consume, fault: Option<Fault>) -> (Out, LogRef) {
+    let src = Src::new(plain, sched).fault(fault);
+    let log = src.log();
+    let out = match SymEncryptedProtectedData::encrypt_seipdv2_stream(sym, aead, cs, &CFB_KEY[..sym.key_size()], AEAD_SALT, src) {
+        Err(e) => Out::err("new", e, vec![]),
+        Ok(mut enc) => {
+            let r = drain_read(&mut enc, cons);
+            match r.err {
+                None => Out::ok(r.data, ""),
+                Some(e) => Out::err("read", e, r.data),
+            }
+        }
+    };
+    (out, log)
+}
+
+fn run_aead_dec(sym: SymmetricKeyAlgorithm, aead: AeadAlgorithm, cs: ChunkSize, ct: &Arc<Vec<u8>>, sched: &Sched, cons: &Consume, fault: Option<Fault>) -> (Out, LogRef) {
+    let src = Src::new(ct, sched).fault(fault);
+    let log = src.log();
+    let out = match pgp::crypto::aead::StreamDecryptor::new_rfc9580(sym, aead, cs, &AEAD_SALT, &CFB_KEY[..sym.key_size()], src) {
+        Err(e) => Out::err("new", e, vec![]),
+        Ok(mut dec) => {
+            let r = drain(&mut dec, cons);
+            match r.err {
+                None => Out::ok(r.data, ""),
+                Some(e) => Out::err("read", e, r.data),
+            }
+        }
+    };
+    (out, log)
+}
+
+fn run_packet_parser(wire: &Arc<Vec<u8>>, sched: &Sched, fault: Option<Fault>) -> (Out, LogRef) {
+    let src = Src::new(wire, sched).fault(fault);
+    let log = src.log();
+    let mut meta = String::new();
+    let mut data = vec![];
+    let mut err = None;
+    for (i, p) in PacketParser::new(src).enumerate() {
+        if i > 2000 {
+            err = Some("more than 2000 items".to_string());
+            break;
+        }
+        match p {
+            Ok(p) => {
+                use pgp::packet::PacketTrait;
+                meta.push_str(&format!("{:?};", p.packet_header().tag()));
+                match p.to_bytes() {
+                    Ok(b) => data.extend_from_slice(&b),
+                    Err(e) => {
+                        err = Some(format!("serialize: {e}"));
+                        break;
+                    }
+                }
+            }
+            Err(e) => {
+                err = Some(e.to_string());
+                break;
+            }
+        }
+    }
+    let out = match err {
+        None => Out::ok(data, meta),
+        Some(e) => Out::err("next", e, data),
+    };
+    (out, log)
+}
+
+/// Runs `runner` for every (schedule, consumer) and compares with R0; then injects faults.
+#[allow(clippy::too_many_arguments)]
+fn diff_and_fault(
+    ctx: &mut Ctx,
+    comp: &str,
+    desc: &str,
+    r0: &Out,
+    scheds: &[Sched],
+    cons: &[Consume],
+    fault_scheds: &[Sched],
+    fault_cons: &Consume,
+    boundaries: &[usize],
+    // (inject at every call when the clean run has at most this many, sampled calls beyond that,
+    //  consumers per schedule: 0 = full cross product, k = a window of k consumers rotating with
+    //  the schedule index and the case)
+    fault_budget: (usize, usize, usize),
+    replay_base: &Value,
+    runner: &dyn Fn(&Sched, &Consume, Option<Fault>) -> (Out, LogRef),
+) {
+    let salt = crate::core::hash64(&desc) as usize % 1000;
+    for (si, sc) in scheds.iter().enumerate() {
+        let per = fault_budget.2;
+        let picked: Vec<&Consume> = if per == 0 || per >= cons.len() { cons.iter().collect() } else { (0..per).map(|t| &cons[(si * per + salt + t) % cons.len()]).collect() };
+        for c in picked {
+            let replay = || {
+                let mut v = replay_base.clone();
+                v["sched"] = sched_json(sc);
+                v["consumer"] = json!(c.name());
+                v
+            };
+            let got = guarded(ctx, &format!("C09/{comp}/sched"), replay, || runner(sc, c, None).0);
+            ctx.eval();
+            let Some(got) = got else { continue };
+            ctx.seen(&format!("matrix.{comp}"), format!("{}|{}", sched_class(sc), cons_class(c)));
+            judge(ctx, comp, r0, &got, &|| format!("{comp} {desc}, source {} {}, consumer {}", sc.name(), sched_json(sc), c.name()), &replay);
+        }
+    }
+    for (si, sc) in fault_scheds.iter().enumerate() {
+        // clean run with call recording
+        let (offsets, ncalls) = {
+            let Some((_, src_log)) = guarded(ctx, &format!("C09/{comp}/sched"), || replay_base.clone(), || runner(sc, fault_cons, None)) else { continue };
+            let l = src_log.lock().unwrap();
+            (l.offsets.clone(), l.calls)
+        };
+        let mut rng = ctx.rng(&format!("fault.{comp}.{desc}"), si as u64);
+        let pts = fault_points(ncalls, &offsets, boundaries, &mut rng, fault_budget.0, fault_budget.1);
+        ctx.tally(&format!("fault.points.{comp}"), pts.len() as u64);
+        for k in pts {
+            for (kind, sticky) in [(FaultKind::Other, false), (FaultKind::Other, true), (FaultKind::Interrupted, false)] {
+                let f = Fault { at_call: k, sticky, kind };
+                let replay = || {
+                    let mut v = replay_base.clone();
+                    v["sched"] = sched_json(sc);
+                    v["consumer"] = json!(fault_cons.name());
+                    v["fault"] = json!({"call": k, "sticky": sticky, "kind": kind_name(kind), "clean_calls": ncalls});
+                    v
+                };
+                let r = guarded(ctx, &fault_prefix(comp, kind), replay, || runner(sc, fault_cons, Some(f)));
+                ctx.eval();
+                let Some((got, log)) = r else { continue };
+                let raised = log.lock().unwrap().faults_raised;
+                judge_fault(ctx, comp, r0, &got, raised, &f, &|| format!("{comp} {desc}, source {}, consumer {} (clean run: {ncalls} source calls)", sc.name(), fault_cons.name()), &replay);
+            }
+        }
+    }
+}
+
+fn sched_class(s: &Sched) -> String {
+    match s {
+        Sched::All => "all".into(),
+        Sched::Fixed(n) => format!("fixed{n}"),
+        Sched::Cycle(_) => "cycle".into(),
+        Sched::SplitAt(_) => "split".into(),
+        Sched::Random(_, m) => format!("rand{m}"),
+    }
+}
+
+fn cons_class(c: &Consume) -> String {
+    match c {
+        Consume::ReadCycle(_) => "ReadCycle".into(),
+        c => c.name(),
+    }
+}
+
+fn family_streams(ctx: &mut Ctx) {
+    let thorough = !ctx.quick();
+    let read_cons: Vec<Consume> = {
+        let mut v = vec![Consume::ToEnd, Consume::Read(1), Consume::Read(7), Consume::Read(17), Consume::Read(18), Consume::Read(4096), Consume::Read(8192), Consume::Read(8193), Consume::ReadCycle(vec![1, 13, 512, 3])];
+        if thorough {
+            v.extend([Consume::Read(2), Consume::Read(16), Consume::Read(19), Consume::Read(22), Consume::Read(8191), Consume::ReadCycle(vec![8192, 1])]);
+        }
+        v
+    };
+    let buf_cons = consumers_buf(thorough);
+    let sizes: Vec<usize> = if thorough {
+        vec![0, 1, 2, 15, 16, 17, 21, 22, 23, 63, 64, 65, 511, 512, 513, 4095, 4096, 8169, 8170, 8171, 8191, 8192, 8193, 16383, 16384, 16385, 24576, 24581]
+    } else {
+        vec![0, 1, 15, 16, 17, 22, 23, 512, 8170, 8191, 8192, 8193, 16384, 24581]
+    };
+    let algs: Vec<SymmetricKeyAlgorithm> = if thorough {
+        vec![SymmetricKeyAlgorithm::AES128, SymmetricKeyAlgorithm::AES256, SymmetricKeyAlgorithm::TripleDES, SymmetricKeyAlgorithm::CAST5, SymmetricKeyAlgorithm::Twofish, SymmetricKeyAlgorithm::Camellia192, SymmetricKeyAlgorithm::Blowfish, SymmetricKeyAlgorithm::IDEA]
+    } else {
+        vec![SymmetricKeyAlgorithm::AES128, SymmetricKeyAlgorithm::AES256, SymmetricKeyAlgorithm::TripleDES, SymmetricKeyAlgorithm::Twofish]
+    };
+
+    // --- E1/E2: CFB encryptor and decryptors ---------------------------------------------------
+    for alg in &algs {
+        for (zi, n) in sizes.iter().enumerate() {
+            // four sub-cases: encryptor, check-first decryptor, streaming decryptor, unprotected decryptor
+            let sub: Vec<bool> = (0..4).map(|_| ctx.mine()).collect();
+            if !sub.iter().any(|m| *m) {
+                continue;
+            }
+            let alg = *alg;
+            let mut rng = ctx.rng("E1", zi as u64);
+            let plain = Arc::new(payload(&mut rng, *n, false));
+            describe_case(&format!("E1 cfb {alg:?} size {n}"));
+            ctx.cover(&("E1", alg_id(alg), n));
+            ctx.seen("E.cfb.sizes", n.to_string());
+            let seeds: Vec<u64> = (0..ctx.qt(2, 6)).map(|_| rng.gen()).collect();
+            let scheds = adversarial(*n, &[8192, 16384], &seeds, thorough);
+            // large inputs: each schedule meets a rotating window of the consumers instead of all
+            let cps = if *n > 4096 { ctx.qt(5usize, 7usize) } else { 0 };
+
+            let Some(r0) = guarded(ctx, "C09/cfb-encryptor/sched", || json!({"alg": alg_id(alg), "size": n}), || run_cfb_enc(alg, &plain, &Sched::All, &Consume::ToEnd, None).0) else { continue };
+            ctx.eval();
+            let bs = alg.block_size();
+            // anchor: the reference SEIPDv1 decryptor must accept R0 and return the plaintext
+            let anchor = rfc::sym::seipd_v1_decrypt(alg_id(alg), &CFB_KEY[..alg.key_size()], &r0.data);
+            if r0.err || r0.data.len() != n + bs + 2 + 22 || anchor.as_ref().ok() != Some(&*plain) {
+                ctx.violation(
+                    "C09/cfb-encryptor/r0-wrong",
+                    format!("all-at-once / read_to_end run of the CFB StreamEncryptor ({alg:?}, {n} bytes) gives {} which the reference SEIPDv1 decryptor does not map back to the plaintext", r0.brief()),
+                    json!({"alg": alg_id(alg), "plain": hexs(&plain)}),
+                );
+                continue;
+            }
+            let base = json!({"family": "E1", "component": "cfb-encryptor", "alg": alg_id(alg), "plain": hexs(&plain)});
+            let mut scheds_all = vec![Sched::All];
+            scheds_all.extend(scheds.iter().cloned());
+            if sub[0] {
+                diff_and_fault(ctx, "cfb-encryptor", &format!("{alg:?} over {n} plaintext bytes"), &r0, &scheds_all, &read_cons, &[Sched::All, Sched::Fixed(4096), Sched::Fixed(1)], &Consume::Read(100), &[8192, 16384], (64, 24, cps), &base, &|sc, c, f| run_cfb_enc(alg, &plain, sc, c, f));
+            }
+
+            // decryptors over the R0 ciphertext
+            let ct = Arc::new(r0.data.clone());
+            let want = Out::ok((*plain).clone(), "");
+            let cb: Vec<usize> = vec![bs + 2, ct.len() - 22, 8192, 16384, 8192 + bs + 2];
+            let dscheds = {
+                let mut v = vec![Sched::All];
+                v.extend(adversarial(ct.len(), &cb, &seeds, thorough));
+                v
+            };
+            for (mi, mode) in [CfbMode::CheckFirst, CfbMode::Streaming].into_iter().enumerate() {
+                if !sub[1 + mi] {
+                    continue;
+                }
+                let comp = if mode == CfbMode::CheckFirst { "cfb-decryptor-checkfirst" } else { "cfb-decryptor-streaming" };
+                let Some(d0) = guarded(ctx, &format!("C09/{comp}/sched"), || json!({"alg": alg_id(alg), "size": n}), || {
+                    hooks::record(|| run_cfb_dec(alg, mode, &ct, &Sched::All, &Consume::ToEnd, None).0)
+                }) else { continue };
+                ctx.eval();
+                let (d0, ev) = d0;
+                for e in &ev {
+                    if e.site == "cfb.dec.avail" {
+                        ctx.seen("hook.cfb.dec.mode", ["checkfirst", "streaming", "sed"][e.a.min(2) as usize]);
+                    }
+                }
+                if !d0.same(&want) {
+                    ctx.violation(format!("C09/{comp}/r0-wrong"), format!("all-at-once run of {comp} ({alg:?}) over the ciphertext of {n} bytes gives {}", d0.brief()), json!({"alg": alg_id(alg), "ct": hexs(&ct)}));
+                    continue;
+                }
+                let base = json!({"family": "E2", "component": comp, "alg": alg_id(alg), "ct": hexs(&ct)});
+                diff_and_fault(ctx, comp, &format!("{alg:?} over {} ciphertext bytes", ct.len()), &d0, &dscheds, &buf_cons, &[Sched::All, Sched::Fixed(4096), Sched::Fixed(3)], &Consume::Read(100), &cb, (64, 24, cps), &base, &|sc, c, f| run_cfb_dec(alg, mode, &ct, sc, c, f));
+            }
+            // unprotected (SED) form: reference ciphertext with resync
+            let prefix: Vec<u8> = (0..bs).map(|i| i as u8 ^ 0x33).collect();
+            if !sub[3] {
+                continue;
+            }
+            if let Some(sed) = rfc::sym::sed_encrypt(alg_id(alg), &CFB_KEY[..alg.key_size()], &prefix, &plain) {
+                let sed = Arc::new(sed);
+                let comp = "cfb-decryptor-unprotected";
+                if let Some(d0) = guarded(ctx, &format!("C09/{comp}/sched"), || json!({"alg": alg_id(alg), "size": n}), || run_cfb_dec(alg, CfbMode::Unprotected, &sed, &Sched::All, &Consume::ToEnd, None).0) {
+                    ctx.eval();
+                    if !d0.same(&want) {
+                        ctx.violation(format!("C09/{comp}/r0-wrong"), format!("all-at-once run of {comp} ({alg:?}) over a reference SED ciphertext of {n} bytes gives {}", d0.brief()), json!({"alg": alg_id(alg), "ct": hexs(&sed)}));
+                    } else {
+                        let base = json!({"family": "E2", "component": comp, "alg": alg_id(alg), "ct": hexs(&sed)});
+                        let short: Vec<Sched> = dscheds.iter().take(if thorough { dscheds.len() } else { 8 }).cloned().collect();
+                        diff_and_fault(ctx, comp, &format!("{alg:?} over {} ciphertext bytes", sed.len()), &d0, &short, &buf_cons, &[Sched::All, Sched::Fixed(3)], &Consume::Read(100), &cb, (48, 16, cps), &base, &|sc, c, f| run_cfb_dec(alg, CfbMode::Unprotected, &sed, sc, c, f));
+                    }
+                }
+            }
+        }
+    }
+
+    // --- E3/E4: AEAD encryptor / decryptor (chunk 64: many chunks; 4096: default) -----------------
+    let aeads: Vec<(SymmetricKeyAlgorithm, AeadAlgorithm, ChunkSize)> = if thorough {
+        vec![
+            (SymmetricKeyAlgorithm::AES128, AeadAlgorithm::Ocb, ChunkSize::C64B),
+            (SymmetricKeyAlgorithm::AES256, AeadAlgorithm::Gcm, ChunkSize::C64B),
+            (SymmetricKeyAlgorithm::AES192, AeadAlgorithm::Eax, ChunkSize::C128B),
+            (SymmetricKeyAlgorithm::AES128, AeadAlgorithm::Gcm, ChunkSize::C4KiB),
+            (SymmetricKeyAlgorithm::AES256, AeadAlgorithm::Ocb, ChunkSize::C8KiB),
+        ]
+    } else {
+        vec![
+            (SymmetricKeyAlgorithm::AES128, AeadAlgorithm::Ocb, ChunkSize::C64B),
+            (SymmetricKeyAlgorithm::AES256, AeadAlgorithm::Gcm, ChunkSize::C4KiB),
+            (SymmetricKeyAlgorithm::AES192, AeadAlgorithm::Eax, ChunkSize::C128B),
+            (SymmetricKeyAlgorithm::AES256, AeadAlgorithm::Ocb, ChunkSize::C8KiB),
+        ]
+    };
+    for (ai, (sym, aead, cs)) in aeads.iter().enumerate() {
+        let (sym, aead, cs) = (*sym, *aead, *cs);
+        let chunk = cs.as_byte_size() as usize;
+        let mut asizes: Vec<usize> = vec![0, 1, chunk - 1, chunk, chunk + 1, 2 * chunk - 1, 2 * chunk, 2 * chunk + 1, 3 * chunk, 2 * (chunk + 16), 2 * (chunk + 16) - 16, 5 * chunk + 3];
+        if thorough {
+            asizes.extend([2, 15, 16, 17, 4 * chunk, 4 * chunk + 1, 2 * (chunk + 16) + 1, 2 * (chunk + 16) - 1, 2 * (chunk + 16) - 17, 7 * chunk]);
+        }
+        if chunk <= 128 {
+            asizes.extend([8192, 8193]);
+        }
+        asizes.sort_unstable();
+        asizes.dedup();
+        for (zi, n) in asizes.iter().enumerate() {
+            let sub: Vec<bool> = (0..2).map(|_| ctx.mine()).collect();
+            if !sub.iter().any(|m| *m) {
+                continue;
+            }
+            let mut rng = ctx.rng("E3", (ai * 100 + zi) as u64);
+            let plain = Arc::new(payload(&mut rng, *n, false));
+            describe_case(&format!("E3 aead {sym:?} {aead:?} chunk {chunk} size {n}"));
+            ctx.cover(&("E3", ai, n));
+            let seeds: Vec<u64> = (0..ctx.qt(2, 6)).map(|_| rng.gen()).collect();
+            let pb: Vec<usize> = (1..=6).map(|k| k * chunk).collect();
+            let cps = if *n > 4096 { ctx.qt(5usize, 7usize) } else { 0 };
+            let mut scheds = vec![Sched::All, Sched::Fixed(chunk - 1), Sched::Fixed(chunk), Sched::Fixed(chunk + 1)];
+            scheds.extend(adversarial(*n, &pb, &seeds, thorough));
+            let Some(r0) = guarded(ctx, "C09/aead-encryptor/sched", || json!({"aead": ai, "size": n}), || hooks::record(|| run_aead_enc(sym, aead, cs, &plain, &Sched::All, &Consume::ToEnd, None).0)) else { continue };
+            ctx.eval();
+            let (r0, ev) = r0;
+            let nchunks = ev.iter().filter(|e| e.site == "aead.enc.chunk").count();
+            if hooks::available() {
+                ctx.seen("hook.aead.enc.chunks", match nchunks { 0 => "0", 1 => "1", 2 => "2", _ => ">=3" });
+            }
+            // anchor on the reference SEIPDv2 decryptor
+            let mut body = vec![2u8, alg_id(sym), u8::from(aead), u8::from(cs)];
+            body.extend_from_slice(&AEAD_SALT);
+            body.extend_from_slice(&r0.data);
+            let anchor = rfc::sym::seipd_v2_decrypt(&body, &CFB_KEY[..sym.key_size()]);
+            if r0.err || anchor.as_ref().ok() != Some(&*plain) {
+                ctx.violation("C09/aead-encryptor/r0-wrong", format!("all-at-once run of the AEAD StreamEncryptor ({sym:?},{aead:?},chunk {chunk}, {n} bytes) gives {} which the reference SEIPDv2 decryptor does not map back to the plaintext", r0.brief()), json!({"aead": ai, "plain": hexs(&plain)}));
+                continue;
+            }
+            let base = json!({"family": "E3", "component": "aead-encryptor", "sym": alg_id(sym), "aead": u8::from(aead), "chunk": chunk, "plain": hexs(&plain)});
+            if sub[0] {
+                diff_and_fault(ctx, "aead-encryptor", &format!("{sym:?}/{aead:?}/chunk {chunk} over {n} plaintext bytes"), &r0, &scheds, &read_cons, &[Sched::All, Sched::Fixed(chunk), Sched::Fixed(1)], &Consume::Read(100), &pb, (64, 16, cps), &base, &|sc, c, f| run_aead_enc(sym, aead, cs, &plain, sc, c, f));
+            }
+            if !sub[1] {
+                continue;
+            }
+
+            let ct = Arc::new(r0.data.clone());
+            let want = Out::ok((*plain).clone(), "");
+            let ec = chunk + 16;
+            let cb: Vec<usize> = (1..=6).map(|k| k * ec).chain([ct.len().saturating_sub(16), ct.len().saturating_sub(32)]).collect();
+            let mut dscheds = vec![Sched::All, Sched::Fixed(ec - 1), Sched::Fixed(ec), Sched::Fixed(ec + 1), Sched::Fixed(2 * ec)];
+            dscheds.extend(adversarial(ct.len(), &cb, &seeds, thorough));
+            let Some(d0) = guarded(ctx, "C09/aead-decryptor/sched", || json!({"aead": ai, "size": n}), || hooks::record(|| run_aead_dec(sym, aead, cs, &ct, &Sched::All, &Consume::ToEnd, None).0)) else { continue };
+            ctx.eval();
+            let (d0, ev) = d0;
+            if hooks::available() {
+                let mx = ev.iter().filter(|e| e.site == "aead.dec.chunk").map(|e| e.a).max();
+                ctx.seen("hook.aead.dec.max_chunk_index", match mx { None => "none", Some(0) => "0", Some(1) => "1", _ => ">=2" });
+            }
+            if !d0.same(&want) {
+                ctx.violation("C09/aead-decryptor/r0-wrong", format!("all-at-once run of the AEAD StreamDecryptor over the ciphertext of {n} bytes gives {}", d0.brief()), json!({"aead": ai, "ct": hexs(&ct)}));
+                continue;
+            }
+            let base = json!({"family": "E4", "component": "aead-decryptor", "sym": alg_id(sym), "aead": u8::from(aead), "chunk": chunk, "ct": hexs(&ct)});
+            diff_and_fault(ctx, "aead-decryptor", &format!("{sym:?}/{aead:?}/chunk {chunk} over {} ciphertext bytes", ct.len()), &d0, &dscheds, &buf_cons, &[Sched::All, Sched::Fixed(ec), Sched::Fixed(3)], &Consume::Read(100), &cb, (64, 16, cps), &base, &|sc, c, f| run_aead_dec(sym, aead, cs, &ct, sc, c, f));
+        }
+    }
+
+    // --- E5: PacketParser over a certificate and over a partial-body message --------------------
+    let k4 = zoo::key(&zoo::Spec::simple(false, zoo::Alg::Ed25519Legacy, Some(zoo::Alg::EcdhCv25519)), 0);
+    let k6 = zoo::key(&zoo::Spec::simple(true, zoo::Alg::Ed25519, Some(zoo::Alg::X25519)), 0);
+    let mut streams: Vec<(String, Vec<u8>)> = vec![];
+    if let Ok(b) = k4.to_public_key().to_bytes() {
+        streams.push(("cert-v4".into(), b));
+    }
+    if let Ok(b) = k6.to_public_key().to_bytes() {
+        streams.push(("cert-v6".into(), b));
+    }
+    if let Ok(b) = k6.to_bytes() {
+        let mut both = b;
+        if let Ok(b4) = k4.to_bytes() {
+            both.extend_from_slice(&b4);
+        }
+        streams.push(("tsk-v6+v4".into(), both));
+    }
+    for n in [700usize, 8192 + 600] {
+        let mut rng = Ctx::fixed_rng("c09.pp", n as u64);
+        let data = payload(&mut rng, n, false);
+        let mut b = MessageBuilder::from_reader("", &data[..]);
+        b.partial_chunk_size(512).unwrap();
+        if let Ok(m) = b.to_vec(ChaCha8Rng::seed_from_u64(1)) {
+            streams.push((format!("partial-literal-{n}"), m));
+        }
+    }
+    for (name, wire) in &streams {
+        if !ctx.mine() {
+            continue;
+        }
+        let wire = Arc::new(wire.clone());
+        let n = wire.len();
+        describe_case(&format!("E5 packet parser {name}"));
+        ctx.cover(&("E5", name));
+        let bounds = stream_boundaries(&wire);
+        let mut rng = ctx.rng("E5", n as u64);
+        let seeds: Vec<u64> = (0..ctx.qt(4, 12)).map(|_| rng.gen()).collect();
+        let mut scheds = adversarial(n, &bounds, &seeds, thorough);
+        // every single split point
+        for a in 1..n.min(ctx.qt(400, 4000)) {
+            scheds.push(Sched::SplitAt(vec![a]));
+        }
+        let Some(r0) = guarded(ctx, "C09/packet-parser/sched", || json!({"stream": name}), || run_packet_parser(&wire, &Sched::All, None).0) else { continue };
+        ctx.eval();
+        if r0.err || (name.starts_with("cert") || name.starts_with("tsk")) && r0.data.len() + 0 == 0 {
+            ctx.violation("C09/packet-parser/r0-wrong", format!("all-at-once PacketParser over {name} gives {}", r0.brief()), json!({"stream": name, "wire": hexs(&wire)}));
+            continue;
+        }
+        let base = json!({"family": "E5", "component": "packet-parser", "stream": name, "wire": hexs(&wire)});
+        diff_and_fault(ctx, "packet-parser", &format!("over {name} ({n} bytes)"), &r0, &scheds, &[Consume::ToEnd], &[Sched::All, Sched::Fixed(64), Sched::Fixed(1)], &Consume::ToEnd, &bounds, (64, 32, 0), &base, &|sc, _c, f| run_packet_parser(&wire, sc, f));
+    }
+}
+
+// ==========================================================================================
+// Families B / R / F: MessageBuilder and Message reader
+
+struct MsgEnv {
+    k4: SignedSecretKey,
+    k6: SignedSecretKey,
+    p4: pgp::composed::SignedPublicKey,
+    p6: pgp::composed::SignedPublicKey,
+}
+
+impl MsgEnv {
+    fn new() -> Self {
+        let k4 = zoo::key(&zoo::Spec::simple(false, zoo::Alg::Ed25519Legacy, None), 0);
+        let k6 = zoo::key(&zoo::Spec::simple(true, zoo::Alg::Ed25519, None), 0);
+        let p4 = k4.to_public_key();
+        let p6 = k6.to_public_key();
+        MsgEnv { k4, k6, p4, p6 }
+    }
+}
+
+#[derive(Clone, Copy, Debug, PartialEq, Eq)]
+enum EncCfg {
+    None,
+    /// SEIPDv1 with set_session_key; bool = read in streaming mode
+    V1Key(SymmetricKeyAlgorithm, bool),
+    V1Pw(SymmetricKeyAlgorithm),
+    V2Key(SymmetricKeyAlgorithm, AeadAlgorithm, ChunkSize),
+    V2Pw(SymmetricKeyAlgorithm, AeadAlgorithm, ChunkSize),
+}
+
+#[derive(Clone, Copy, Debug, PartialEq, Eq)]
+enum SignCfg {
+    None,
+    V4,
+    V6,
+    Both,
+}
+
+#[derive(Clone, Debug)]
+struct Cfg {
+    name: &'static str,
+    comp: Option<CompressionAlgorithm>,
+    sign: SignCfg,
+    enc: EncCfg,
+    chunk: u32,
+    /// Utf8 literal + text signatures over CRLF text
+    text: bool,
+    /// compressed output: compare semantically if the compressor turns out to be schedule dependent
+    thorough_only: bool,
+}
+
+fn configs() -> Vec<Cfg> {
+    use AeadAlgorithm::{Eax, Gcm, Ocb};
+    use SymmetricKeyAlgorithm::{TripleDES, AES128, AES256};
+    let c = |name, comp, sign, enc, chunk, text, thorough_only| Cfg { name, comp, sign, enc, chunk, text, thorough_only };
+    vec![
+        c("plain-512", None, SignCfg::None, EncCfg::None, 512, false, false),
+        c("plain-1024-utf8", None, SignCfg::None, EncCfg::None, 1024, true, false),
+        c("zip-512", Some(CompressionAlgorithm::ZIP), SignCfg::None, EncCfg::None, 512, true, false),
+        c("zlib-1024", Some(CompressionAlgorithm::ZLIB), SignCfg::None, EncCfg::None, 1024, false, false),
+        c("bzip2-512", Some(CompressionAlgorithm::BZip2), SignCfg::None, EncCfg::None, 512, true, false),
+        c("sig4-512", None, SignCfg::V4, EncCfg::None, 512, false, false),
+        c("sig6-1024-text", None, SignCfg::V6, EncCfg::None, 1024, true, false),
+        c("sig46-512", None, SignCfg::Both, EncCfg::None, 512, false, true),
+        c("v1key-aes128-512", None, SignCfg::None, EncCfg::V1Key(AES128, false), 512, false, false),
+        c("v1key-aes256-1024-streaming", None, SignCfg::None, EncCfg::V1Key(AES256, true), 1024, false, false),
+        c("v1pw-3des-512", None, SignCfg::None, EncCfg::V1Pw(TripleDES), 512, false, true),
+        c("v1pw-aes128-sig4-zip-512", Some(CompressionAlgorithm::ZIP), SignCfg::V4, EncCfg::V1Pw(AES128), 512, true, false),
+        c("v2key-aes128-ocb-c64-512", None, SignCfg::None, EncCfg::V2Key(AES128, Ocb, ChunkSize::C64B), 512, false, false),
+        c("v2key-aes256-gcm-c4k-1024", None, SignCfg::None, EncCfg::V2Key(AES256, Gcm, ChunkSize::C4KiB), 1024, false, false),
+        c("v2pw-aes128-eax-c512-sig6-512", None, SignCfg::V6, EncCfg::V2Pw(AES128, Eax, ChunkSize::C512B), 512, false, false),
+        c("v2key-aes256-ocb-c128-zlib-sig6-1024", Some(CompressionAlgorithm::ZLIB), SignCfg::V6, EncCfg::V2Key(AES256, Ocb, ChunkSize::C128B), 1024, true, true),
+    ]
+}
+
+const MSG_PW: &str = "correct horse";
+const SESSION_KEY: [u8; 32] = [0x17; 32];
+
+enum Target<'s> {
+    Vec,
+    Writer(&'s mut Sink),
+    Armored(&'s mut Sink, bool),
+}
+
+fn sub_cfg(key: &SignedSecretKey) -> SubpacketConfig {
+    SubpacketConfig::UserDefined {
+        hashed: vec![
+            Subpacket::regular(SubpacketData::SignatureCreationTime(Timestamp::from_secs(1_700_000_000))).unwrap(),
+            Subpacket::regular(SubpacketData::IssuerFingerprint(key.primary_key.fingerprint())).unwrap(),
+        ],
+        unhashed: vec![],
+    }
+}
+
+fn configure<'a, R: Read, E: pgp::composed::Encryption>(b: &mut MessageBuilder<'a, R, E>, env: &'a MsgEnv, cfg: &Cfg) -> pgp::errors::Result<()> {
+    b.partial_chunk_size(cfg.chunk)?;
+    if let Some(c) = cfg.comp {
+        b.compression(c);
+    }
+    if cfg.text {
+        b.data_mode(DataMode::Utf8)?;
+        b.sign_text();
+    }
+    if matches!(cfg.sign, SignCfg::V4 | SignCfg::Both) {
+        b.sign_with_subpackets(&env.k4.primary_key, Password::empty(), HashAlgorithm::Sha256, sub_cfg(&env.k4));
+    }
+    if matches!(cfg.sign, SignCfg::V6 | SignCfg::Both) {
+        b.sign_with_subpackets(&env.k6.primary_key, Password::empty(), HashAlgorithm::Sha512, sub_cfg(&env.k6));
+    }
+    Ok(())
+}
+
+fn emit<R: Read, E: pgp::composed::Encryption>(b: MessageBuilder<'_, R, E>, rng: ChaCha8Rng, target: Target<'_>) -> pgp::errors::Result<Option<Vec<u8>>> {
+    match target {
+        Target::Vec => b.to_vec(rng).map(Some),
+        Target::Writer(s) => b.to_writer(rng, s).map(|_| None),
+        Target::Armored(s, crc) => b.to_armored_writer(rng, ArmorOptions { headers: None, include_checksum: crc }, s).map(|_| None),
+    }
+}
+
+/// Builds the message of `cfg` from a reader source. All randomness from one seeded RNG.
+fn build(env: &MsgEnv, cfg: &Cfg, src: Src, target: Target<'_>) -> pgp::errors::Result<Option<Vec<u8>>> {
+    let mut rng = ChaCha8Rng::seed_from_u64(0xC0_9B);
+    let b = MessageBuilder::from_reader("", src);
+    match cfg.enc {
+        EncCfg::None => {
+            let mut b = b;
+            configure(&mut b, env, cfg)?;
+            emit(b, rng, target)
+        }
+        EncCfg::V1Key(alg, _) => {
+            let mut b = b.seipd_v1(&mut rng, alg);
+            b.set_session_key(SESSION_KEY[..alg.key_size()].to_vec().into())?;
+            configure(&mut b, env, cfg)?;
+            emit(b, rng, target)
+        }
+        EncCfg::V1Pw(alg) => {
+            let mut b = b.seipd_v1(&mut rng, alg);
+            let s2k = StringToKey::new_iterated(&mut rng, HashAlgorithm::Sha256, 0);
+            b.encrypt_with_password(s2k, &MSG_PW.into())?;
+            configure(&mut b, env, cfg)?;
+            emit(b, rng, target)
+        }
+        EncCfg::V2Key(alg, aead, cs) => {
+            let mut b = b.seipd_v2(&mut rng, alg, aead, cs);
+            b.set_session_key(SESSION_KEY[..alg.key_size()].to_vec().into())?;
+            configure(&mut b, env, cfg)?;
+            emit(b, rng, target)
+        }
+        EncCfg::V2Pw(alg, aead, cs) => {
+            let mut b = b.seipd_v2(&mut rng, alg, aead, cs);
+            let s2k = StringToKey::new_iterated(&mut rng, HashAlgorithm::Sha256, 0);
+            b.encrypt_with_password(&mut rng, s2k, &MSG_PW.into())?;
+            configure(&mut b, env, cfg)?;
+            emit(b, rng, target)
+        }
+    }
+}
+
+#[derive(Clone, Copy, Debug, PartialEq, Eq)]
+enum Emit {
+    Vec,
+    Writer,
+    Armored,
+    ArmoredNoCrc,
+}
+
+impl Emit {
+    fn comp(self) -> &'static str {
+        match self {
+            Emit::Vec => "builder-source",
+            Emit::Writer => "builder-sink",
+            Emit::Armored | Emit::ArmoredNoCrc => "builder-armored-sink",
+        }
+    }
+}
+
+/// One builder run: returns the outcome, the source log, and (calls, raised, offsets) of the sink.
+fn run_build(env: &MsgEnv, cfg: &Cfg, data: &Arc<Vec<u8>>, src_sched: &Sched, src_fault: Option<Fault>, emit_kind: Emit, sink_sched: &Sched, sink_fault: Option<Fault>) -> (Out, LogRef, Log) {
+    let src = Src::new(data, src_sched).fault(src_fault);
+    let slog = src.log();
+    let mut sink = Sink::new(sink_sched).fault(sink_fault);
+    let sink_out = sink.out.clone();
+    let sink_log = sink.log.clone();
+    let res = match emit_kind {
+        Emit::Vec => build(env, cfg, src, Target::Vec),
+        Emit::Writer => build(env, cfg, src, Target::Writer(&mut sink)),
+        Emit::Armored => build(env, cfg, src, Target::Armored(&mut sink, true)),
+        Emit::ArmoredNoCrc => build(env, cfg, src, Target::Armored(&mut sink, false)),
+    };
+    let written = sink_out.borrow().clone();
+    let out = match res {
+        Ok(Some(v)) => Out::ok(v, ""),
+        Ok(None) => Out::ok(written, ""),
+        Err(e) => Out::err("build", e, written),
+    };
+    let l = sink_log.borrow().clone();
+    (out, slog, l)
+}
+
+/// One reader run over `wire`.
+fn run_read(env: &MsgEnv, cfg: &Cfg, wire: &Arc<Vec<u8>>, armored: bool, sched: &Sched, cons: &Consume, fault: Option<Fault>) -> (Out, LogRef) {
+    let src = Src::new(wire, sched).fault(fault);
+    let log = src.log();
+    let out = (|| {
+        let (mut msg, hdrs) = if armored {
+            match Message::from_armor(src) {
+                Ok((m, h)) => (m, format!("{h:?}")),
+                Err(e) => return Out::err("parse", e, vec![]),
+            }
+        } else {
+            match Message::from_bytes(src) {
+                Ok(m) => (m, String::new()),
+                Err(e) => return Out::err("parse", e, vec![]),
+            }
+        };
+        let mut layers = String::new();
+        for _ in 0..6 {
+            if msg.is_encrypted() {
+                layers.push('E');
+                let r = match cfg.enc {
+                    EncCfg::V1Key(alg, streaming) => {
+                        let mut opts = DecryptionOptions::new();
+                        if streaming {
+                            opts = opts.set_seipdv1_read_mode(Seipdv1ReadMode::Streaming);
+                        }
+                        let ring = TheRing {
+                            session_keys: vec![PlainSessionKey::V3_4 { sym_alg: alg, key: SESSION_KEY[..alg.key_size()].to_vec().into() }],
+                            decrypt_options: opts,
+                            ..Default::default()
+                        };
+                        msg.decrypt_the_ring(ring, true).map(|(m, _)| m)
+                    }
+                    EncCfg::V2Key(alg, _, _) => msg.decrypt_with_session_key(PlainSessionKey::V6 { key: SESSION_KEY[..alg.key_size()].to_vec().into() }),
+                    EncCfg::V1Pw(_) | EncCfg::V2Pw(..) => msg.decrypt_with_password(&MSG_PW.into()),
+                    EncCfg::None => return Out::err("decrypt", "unexpected encrypted layer", vec![]),
+                };
+                msg = match r {
+                    Ok(m) => m,
+                    Err(e) => return Out::err("decrypt", e, vec![]),
+                };
+            } else if msg.is_compressed() {
+                layers.push('C');
+                msg = match msg.decompress() {
+                    Ok(m) => m,
+                    Err(e) => return Out::err("decompress", e, vec![]),
+                };
+            } else {
+                break;
+            }
+        }
+        let d = drain(&mut msg, cons);
+        if let Some(e) = d.err {
+            return Out::err("read", e, d.data);
+        }
+        let hdr = msg.literal_data_header().map(|h| format!("{:?}/{}/{}", h.mode(), hex::encode(h.file_name()), h.created().as_secs()));
+        let verdict = if msg.is_signed() {
+            layers.push('S');
+            let v4 = msg.verify(&env.p4.primary_key).is_ok();
+            let v6 = msg.verify(&env.p6.primary_key).is_ok();
+            let nested = msg
+                .verify_nested(&[&env.p4.primary_key, &env.p6.primary_key])
+                .map(|v| v.iter().map(|r| matches!(r, pgp::composed::VerificationResult::Valid(_))).collect::<Vec<_>>());
+            format!("v4={v4} v6={v6} nested={nested:?}")
+        } else {
+            "unsigned".to_string()
+        };
+        Out::ok(d.data, format!("layers={layers} header={hdr:?} verify[{verdict}] armor_headers={hdrs}"))
+    })();
+    (out, log)
+}
+
+fn expected_verdict(cfg: &Cfg) -> &'static str {
+    match cfg.sign {
+        SignCfg::None => "unsigned",
+        SignCfg::V4 => "v4=true v6=false",
+        SignCfg::V6 => "v4=false v6=true",
+        SignCfg::Both => "nested=Ok([true, true])",
+    }
+}
+
+fn phase(is_first: u64, size: u64, is_partial: u64) -> &'static str {
+    match (is_first != 0, is_partial != 0, size) {
+        (true, false, _) => "first-fixed",
+        (true, true, _) => "first-partial",
+        (false, true, _) => "mid-partial",
+        (false, false, 0) => "last-fixed-empty",
+        (false, false, _) => "last-fixed",
+    }
+}
+
+fn payload_sizes(ctx: &Ctx) -> Vec<usize> {
+    let mut v = vec![0usize, 1, 505, 506, 507, 511, 512, 513, 1018, 1024, 1530, 4096, 8191, 8192, 8193, 16383, 16384, 16385, 3 * 8192 + 5];
+    if !ctx.quick() {
+        v.extend([2, 3, 63, 64, 65, 474, 475, 476, 1017, 1019, 1023, 1025, 1529, 1531, 2042, 8186, 8187, 8188, 16378, 16379, 24576, 24577, 3 * 8192 + 4]);
+    }
+    if !ctx.quick() {
+        let mut rng = ctx.rng("sizes", 0);
+        for _ in 0..64 {
+            v.push(rng.gen_range(0..=25_000usize));
+        }
+    }
+    v.sort_unstable();
+    v.dedup();
+    v
+}
+
+fn sink_scheds(thorough: bool, seed: u64) -> Vec<Sched> {
+    let mut v = vec![Sched::Fixed(1), Sched::Fixed(3), Sched::Fixed(64), Sched::Fixed(512), Sched::Cycle(vec![1, 63, 64, 65, 513]), Sched::Random(seed, 100)];
+    if thorough {
+        v.extend([Sched::Fixed(2), Sched::Fixed(7), Sched::Fixed(63), Sched::Fixed(65), Sched::Fixed(511), Sched::Fixed(513), Sched::Fixed(8191), Sched::Fixed(8193), Sched::Random(seed ^ 5, 9000)]);
+    }
+    v
+}
+
+fn family_messages(ctx: &mut Ctx, env: &MsgEnv) {
+    let thorough = !ctx.quick();
+    let cfgs: Vec<Cfg> = configs();
+    let sizes = payload_sizes(ctx);
+    let cons = consumers_buf(thorough);
+
+    for (ci, cfg) in cfgs.iter().enumerate() {
+        // consecutive sweep around the first partial-chunk edge of every layer (reduced schedule set)
+        let sweep: Vec<usize> = if thorough { (400..=560).chain(960..=1060).collect() } else { (440..=520).collect() };
+        let all_sizes: Vec<(usize, bool)> = sizes.iter().map(|s| (*s, false)).chain(sweep.iter().filter(|s| !sizes.contains(s)).map(|s| (*s, true))).collect();
+        for (n, is_sweep) in all_sizes {
+            // three sub-cases: builder (source and sink schedules), binary reader, armored reader
+            let sub: Vec<bool> = (0..3).map(|_| ctx.mine()).collect();
+            if !sub.iter().any(|m| *m) {
+                continue;
+            }
+            let mut rng = ctx.rng("M", (ci * 100_000 + n) as u64);
+            let data = Arc::new(payload(&mut rng, n, cfg.text));
+            describe_case(&format!("M cfg {} size {n}", cfg.name));
+            ctx.seen("M.configs", cfg.name);
+            if !is_sweep {
+                ctx.seen("M.sizes", n.to_string());
+            }
+
+            // ---- B: builder --------------------------------------------------------------
+            let r0 = guarded(ctx, "C09/builder-source/sched", || json!({"cfg": cfg.name, "size": n}), || hooks::record(|| run_build(env, cfg, &data, &Sched::All, None, Emit::Vec, &Sched::All, None).0));
+            ctx.eval();
+            let Some((r0, ev)) = r0 else { continue };
+            for e in &ev {
+                match e.site {
+                    "lit.chunk" => ctx.seen("hook.lit.chunk", phase(e.a, e.b, e.c)),
+                    "cmp.chunk" => ctx.seen("hook.cmp.chunk", phase(e.a, e.b, e.c)),
+                    "enc.chunk" => ctx.seen("hook.enc.chunk", phase(e.a, e.b, e.c)),
+                    _ => {}
+                }
+            }
+            if r0.err {
+                ctx.violation("C09/builder-source/r0-wrong", format!("all-at-once build of cfg {} size {n} failed: {}", cfg.name, r0.brief()), json!({"cfg": cfg.name, "data": hexs(&data)}));
+                continue;
+            }
+            let wire = Arc::new(r0.data.clone());
+            let seeds: Vec<u64> = (0..ctx.qt(3, 8)).map(|_| rng.gen()).collect();
+            let c = cfg.chunk as usize;
+            let src_bounds: Vec<usize> = (0..8).map(|k| c - 6 + k * c).chain([8192, 16384, 24576]).filter(|b| *b < n).collect();
+            let src_scheds: Vec<Sched> = if is_sweep {
+                vec![Sched::Fixed(1), Sched::Fixed(512), Sched::Random(seeds[0], 700)]
+            } else {
+                adversarial(n, &src_bounds, &seeds, thorough)
+            };
+            let base = json!({"family": "B", "cfg": cfg.name, "size": n, "data": hexs(&data)});
+            for sc in src_scheds.iter().filter(|_| sub[0]) {
+                let replay = || {
+                    let mut v = base.clone();
+                    v["source"] = sched_json(sc);
+                    v
+                };
+                let got = guarded(ctx, "C09/builder-source/sched", replay, || run_build(env, cfg, &data, sc, None, Emit::Vec, &Sched::All, None).0);
+                ctx.eval();
+                let Some(got) = got else { continue };
+                ctx.cover(&("B", cfg.name, n, sc.name()));
+                judge(ctx, "builder-source", &r0, &got, &|| format!("MessageBuilder::from_reader cfg {} over {n} payload bytes, source {} {}", cfg.name, sc.name(), sched_json(sc)), &replay);
+            }
+            // sinks: binary writer must equal to_vec; armored writer must equal its own all-accepting run
+            let ssc = sink_scheds(thorough, seeds[0]);
+            let sink_list: &[Sched] = if is_sweep { &ssc[..2] } else { &ssc[..] };
+            for sk in sink_list.iter().filter(|_| sub[0]) {
+                let replay = || {
+                    let mut v = base.clone();
+                    v["sink"] = sched_json(sk);
+                    v
+                };
+                let got = guarded(ctx, "C09/builder-sink/sched", replay, || run_build(env, cfg, &data, &Sched::Fixed(700), None, Emit::Writer, sk, None).0);
+                ctx.eval();
+                let Some(got) = got else { continue };
+                ctx.cover(&("Bs", cfg.name, n, sk.name()));
+                judge(ctx, "builder-sink", &r0, &got, &|| format!("MessageBuilder::to_writer cfg {} over {n} payload bytes, sink accepts {} {}", cfg.name, sk.name(), sched_json(sk)), &replay);
+            }
+            let a0 = guarded(ctx, "C09/builder-armored-sink/sched", || base.clone(), || run_build(env, cfg, &data, &Sched::All, None, Emit::Armored, &Sched::All, None).0);
+            ctx.eval();
+            let Some(a0) = a0 else { continue };
+            // anchor the armored R0: the strict reference parser must recover exactly the binary R0
+            let anchored = !a0.err
+                && std::str::from_utf8(&a0.data).ok().and_then(|s| rfc::armor::armor_parse_strict(s).ok()).map(|p| p.data == *wire).unwrap_or(false);
+            if !anchored {
+                ctx.violation("C09/builder-armored-sink/r0-wrong", format!("all-at-once to_armored_writer of cfg {} size {n}: {} does not dearmor (reference) to the to_vec bytes", cfg.name, a0.brief()), base.clone());
+                continue;
+            }
+            let awire = Arc::new(a0.data.clone());
+            if !is_sweep && sub[0] {
+                for sk in sink_list {
+                    let replay = || {
+                        let mut v = base.clone();
+                        v["sink"] = sched_json(sk);
+                        v["armored"] = json!(true);
+                        v
+                    };
+                    let got = guarded(ctx, "C09/builder-armored-sink/sched", replay, || run_build(env, cfg, &data, &Sched::Fixed(513), None, Emit::Armored, sk, None).0);
+                    ctx.eval();
+                    let Some(got) = got else { continue };
+                    ctx.cover(&("Ba", cfg.name, n, sk.name()));
+                    judge(ctx, "builder-armored-sink", &a0, &got, &|| format!("MessageBuilder::to_armored_writer cfg {} over {n} payload bytes, sink accepts {} {}", cfg.name, sk.name(), sched_json(sk)), &replay);
+                }
+            }
+
+            // ---- R: reader ---------------------------------------------------------------
+            for armored in [false, true] {
+                if !sub[1 + armored as usize] {
+                    continue;
+                }
+                let comp = if armored { "reader-armored" } else { "reader" };
+                let w = if armored { &awire } else { &wire };
+                let q0 = guarded(ctx, &format!("C09/{comp}/sched"), || base.clone(), || hooks::record(|| run_read(env, cfg, w, armored, &Sched::All, &Consume::ToEnd, None).0));
+                ctx.eval();
+                let Some((q0, ev)) = q0 else { continue };
+                for e in &ev {
+                    match e.site {
+                        "body.new" => ctx.seen("hook.body.new.kind", ["fixed", "indeterminate", "partial"][e.a.min(2) as usize]),
+                        "aead.dec.chunk" => ctx.seen("hook.msg.aead.dec.chunk_index", match e.a { 0 => "0", 1 => "1", _ => ">=2" }),
+                        "cfb.dec.avail" => ctx.seen("hook.msg.cfb.dec.mode", ["checkfirst", "streaming", "sed"][e.a.min(2) as usize]),
+                        _ => {}
+                    }
+                }
+                // anchor: R0 must return the payload, the literal header and the expected verdicts
+                if q0.err || q0.data != **data || !q0.meta.contains(expected_verdict(cfg)) {
+                    ctx.violation(
+                        format!("C09/{comp}/r0-wrong"),
+                        format!("all-at-once read of the cfg {} message ({n} payload bytes): {} (expected the payload and verdict {})", cfg.name, q0.brief(), expected_verdict(cfg)),
+                        json!({"cfg": cfg.name, "wire": hexs(w)}),
+                    );
+                    continue;
+                }
+                let bounds = if armored { vec![] } else { stream_boundaries(w) };
+                let rscheds: Vec<Sched> = if is_sweep {
+                    vec![Sched::Fixed(1), Sched::Random(seeds[0], 700)]
+                } else {
+                    let mut v = vec![Sched::All];
+                    v.extend(adversarial(w.len(), &bounds, &seeds, thorough));
+                    v
+                };
+                let rcons: Vec<Consume> = if is_sweep { vec![Consume::ToEnd, Consume::Read(7), Consume::Buf(5)] } else { cons.clone() };
+                let rbase = json!({"family": "R", "cfg": cfg.name, "size": n, "armored": armored, "wire": hexs(w)});
+                if n == 513 || n == 8193 {
+                    ctx.sample(json!({"family": "R", "cfg": cfg.name, "payload_bytes": n, "armored": armored, "wire_bytes": w.len(), "wire_head": hexs(&w[..w.len().min(48)]), "layer_boundaries": bounds.iter().take(12).collect::<Vec<_>>(), "source_schedules": rscheds.iter().map(|s| s.name()).collect::<Vec<_>>(), "consumers": rcons.iter().map(|c| c.name()).collect::<Vec<_>>(), "r0": q0.brief()}));
+                }
+                for (si, sc) in rscheds.iter().enumerate() {
+                    // large messages: each schedule meets a rotating window of the consumers
+                    let per = if n > 8193 && rcons.len() > 12 { 10 } else { rcons.len() };
+                    for c in (0..per).map(|t| &rcons[(si * per + n + t) % rcons.len()]) {
+                        let replay = || {
+                            let mut v = rbase.clone();
+                            v["source"] = sched_json(sc);
+                            v["consumer"] = json!(c.name());
+                            v
+                        };
+                        let got = guarded(ctx, &format!("C09/{comp}/sched"), replay, || run_read(env, cfg, w, armored, sc, c, None).0);
+                        ctx.eval();
+                        let Some(got) = got else { continue };
+                        ctx.cover(&("R", cfg.name, n, armored, sc.name(), c.name()));
+                        ctx.seen(&format!("matrix.{comp}"), format!("{}|{}", sched_class(sc), cons_class(c)));
+                        judge(ctx, comp, &q0, &got, &|| format!("Message reader cfg {} ({n} payload bytes, {} wire bytes, armored={armored}), source {} {}, consumer {}", cfg.name, w.len(), sc.name(), sched_json(sc), c.name()), &replay);
+                    }
+                }
+            }
+        }
+    }
+
+    // ---- truncated / damaged messages: the error class must not depend on the schedule -----------
+    for (ci, cfg) in cfgs.iter().enumerate() {
+        for n in [700usize, 8192 + 300] {
+            if !ctx.mine() {
+                continue;
+            }
+            let mut rng = ctx.rng("T", (ci * 100_000 + n) as u64);
+            let data = Arc::new(payload(&mut rng, n, cfg.text));
+            describe_case(&format!("T cfg {} size {n}", cfg.name));
+            let Some((r0, _, _)) = guarded(ctx, "C09/builder-source/sched", || json!({"cfg": cfg.name, "size": n}), || run_build(env, cfg, &data, &Sched::All, None, Emit::Vec, &Sched::All, None)) else { continue };
+            if r0.err {
+                continue;
+            }
+            let wire = r0.data;
+            let bounds = stream_boundaries(&wire);
+            let wl = wire.len();
+            let mut cuts: Vec<usize> = vec![1, 2, 3, wl / 2, wl.saturating_sub(1), wl.saturating_sub(2), wl.saturating_sub(21), wl.saturating_sub(23)];
+            for b in &bounds {
+                for d in [-1i64, 0, 1] {
+                    let o = *b as i64 + d;
+                    if o > 0 && (o as usize) < wire.len() {
+                        cuts.push(o as usize);
+                    }
+                }
+            }
+            cuts.retain(|c| *c > 0 && *c < wl);
+            cuts.sort_unstable();
+            cuts.dedup();
+            if ctx.quick() && cuts.len() > 24 {
+                let step = cuts.len().div_ceil(24);
+                cuts = cuts.into_iter().step_by(step).collect();
+            }
+            for cut in cuts {
+                let w = Arc::new(wire[..cut].to_vec());
+                let q0 = guarded(ctx, "C09/reader-truncated/sched", || json!({"cfg": cfg.name, "cut": cut}), || run_read(env, cfg, &w, false, &Sched::All, &Consume::ToEnd, None).0);
+                ctx.eval();
+                let Some(q0) = q0 else { continue };
+                ctx.cover(&("T", cfg.name, n, cut));
+                ctx.tally(if q0.err { "T.r0-err" } else { "T.r0-ok" }, 1);
+                let seeds = [rng.gen::<u64>()];
+                let scheds = [Sched::Fixed(1), Sched::Fixed(7), Sched::Fixed(512), Sched::SplitAt(vec![cut.saturating_sub(1).max(1)]), Sched::Random(seeds[0], 600)];
+                let tcons = [Consume::ToEnd, Consume::Read(1), Consume::Read(4096), Consume::Buf(5), Consume::BufAll, Consume::Mixed(3)];
+                for (i, sc) in scheds.iter().enumerate() {
+                    for (j, c) in tcons.iter().enumerate() {
+                        if ctx.quick() && (i + j + cut) % 3 != 0 {
+                            continue;
+                        }
+                        let replay = || json!({"family": "T", "cfg": cfg.name, "wire": hexs(&w), "source": sched_json(sc), "consumer": c.name()});
+                        let got = guarded(ctx, "C09/reader-truncated/sched", replay, || run_read(env, cfg, &w, false, sc, c, None).0);
+                        ctx.eval();
+                        let Some(got) = got else { continue };
+                        judge(ctx, "reader-truncated", &q0, &got, &|| format!("Message reader over the cfg {} message cut to {cut} of {} bytes, source {}, consumer {}", cfg.name, wire.len(), sc.name(), c.name()), &replay);
+                    }
+                }
+            }
+        }
+    }
+
+    // ---- F: fault injection --------------------------------------------------------------------
+    let fsizes: Vec<usize> = if thorough { vec![0, 1, 506, 507, 700, 1530, 8192, 8193, 8192 + 300, 16390, 3 * 8192 + 5] } else { vec![0, 1, 507, 700, 8193, 16390] };
+    let budget = (ctx.qt(64usize, 128usize), ctx.qt(40usize, 96usize));
+    for (ci, cfg) in cfgs.iter().enumerate() {
+        for n in &fsizes {
+            let n = *n;
+            // sub-cases: builder source faults, builder sink faults (x3 emitters), reader faults (x2)
+            let sub: Vec<bool> = (0..6).map(|_| ctx.mine()).collect();
+            if !sub.iter().any(|m| *m) {
+                continue;
+            }
+            let mut rng = ctx.rng("F", (ci * 100_000 + n) as u64);
+            let data = Arc::new(payload(&mut rng, n, cfg.text));
+            describe_case(&format!("F cfg {} size {n}", cfg.name));
+            ctx.cover(&("F", cfg.name, n));
+            let base = json!({"family": "F", "cfg": cfg.name, "size": n, "data": hexs(&data)});
+
+            // (1) builder, source faults
+            let Some((r0, _, _)) = guarded(ctx, "C09/builder-source/sched", || base.clone(), || run_build(env, cfg, &data, &Sched::All, None, Emit::Vec, &Sched::All, None)) else { continue };
+            if r0.err {
+                ctx.violation("C09/builder-source/r0-wrong", format!("clean build of cfg {} size {n} failed: {}", cfg.name, r0.brief()), base.clone());
+                continue;
+            }
+            let c = cfg.chunk as usize;
+            let src_bounds: Vec<usize> = (0..8).map(|k| c - 6 + k * c).chain([8192, 16384, 24576]).filter(|b| *b <= n).collect();
+            for sc in [Sched::All, Sched::Fixed(300)].into_iter().filter(|_| sub[0]) {
+                let Some((_, slog, _)) = guarded(ctx, "C09/builder-source/sched", || base.clone(), || run_build(env, cfg, &data, &sc, None, Emit::Vec, &Sched::All, None)) else { continue };
+                let (offsets, ncalls) = {
+                    let l = slog.lock().unwrap();
+                    (l.offsets.clone(), l.calls)
+                };
+                let pts = fault_points(ncalls, &offsets, &src_bounds, &mut rng, budget.0, budget.1);
+                ctx.tally("fault.points.builder-source", pts.len() as u64);
+                for k in pts {
+                    for (kind, sticky) in [(FaultKind::Other, false), (FaultKind::Other, true), (FaultKind::Interrupted, false)] {
+                        let f = Fault { at_call: k, sticky, kind };
+                        let replay = || {
+                            let mut v = base.clone();
+                            v["source"] = sched_json(&sc);
+                            v["source_fault"] = json!({"call": k, "sticky": sticky, "kind": kind_name(kind), "clean_calls": ncalls});
+                            v
+                        };
+                        let r = guarded(ctx, &fault_prefix("builder-source", kind), replay, || run_build(env, cfg, &data, &sc, Some(f), Emit::Vec, &Sched::All, None));
+                        ctx.eval();
+                        let Some((got, slog, _)) = r else { continue };
+                        let raised = slog.lock().unwrap().faults_raised;
+                        judge_fault(ctx, "builder-source", &r0, &got, raised, &f, &|| format!("MessageBuilder::from_reader(..).to_vec cfg {} over {n} payload bytes, source {} ({ncalls} clean source calls)", cfg.name, sc.name()), &replay);
+                    }
+                }
+            }
+
+            // (2) builder, sink faults: to_writer and to_armored_writer (with and without CRC line)
+            for (ei, emit_kind) in [Emit::Writer, Emit::Armored, Emit::ArmoredNoCrc].into_iter().enumerate() {
+                if !sub[1 + ei] {
+                    continue;
+                }
+                let comp = emit_kind.comp();
+                for sk in [Sched::All, Sched::Fixed(200)] {
+                    let Some((e0, _, l0)) = guarded(ctx, &format!("C09/{comp}/sched"), || base.clone(), || run_build(env, cfg, &data, &Sched::All, None, emit_kind, &sk, None)) else { continue };
+                    if e0.err {
+                        ctx.violation(format!("C09/{comp}/r0-wrong"), format!("clean {emit_kind:?} build failed: {}", e0.brief()), base.clone());
+                        continue;
+                    }
+                    let ncalls = l0.calls;
+                    // the end of an armored body and the footer are written by the last ~16 calls
+                    let mut pts = fault_points(ncalls, &l0.offsets, &[], &mut rng, budget.0, budget.1);
+                    pts.extend(ncalls.saturating_sub(20)..ncalls);
+                    pts.sort_unstable();
+                    pts.dedup();
+                    ctx.tally(&format!("fault.points.{comp}"), pts.len() as u64);
+                    for k in pts {
+                        for (kind, sticky) in [(FaultKind::Other, false), (FaultKind::Other, true), (FaultKind::Interrupted, false)] {
+                            let f = Fault { at_call: k, sticky, kind };
+                            let replay = || {
+                                let mut v = base.clone();
+                                v["emit"] = json!(format!("{emit_kind:?}"));
+                                v["sink"] = sched_json(&sk);
+                                v["sink_fault"] = json!({"call": k, "sticky": sticky, "kind": kind_name(kind), "clean_calls": ncalls});
+                                v
+                            };
+                            let r = guarded(ctx, &fault_prefix(comp, kind), replay, || run_build(env, cfg, &data, &Sched::All, None, emit_kind, &sk, Some(f)));
+                            ctx.eval();
+                            let Some((got, _, l)) = r else { continue };
+                            judge_fault(ctx, comp, &e0, &got, l.faults_raised, &f, &|| format!("MessageBuilder {emit_kind:?} cfg {} over {n} payload bytes, sink {} ({ncalls} clean sink calls incl. flush)", cfg.name, sk.name()), &replay);
+                        }
+                    }
+                }
+            }
+
+            // (3) reader, source faults (binary and armored)
+            let wire = Arc::new(r0.data.clone());
+            let Some((a0, _, _)) = guarded(ctx, "C09/builder-armored-sink/sched", || base.clone(), || run_build(env, cfg, &data, &Sched::All, None, Emit::Armored, &Sched::All, None)) else { continue };
+            let awire = Arc::new(a0.data);
+            for armored in [false, true] {
+                if !sub[4 + armored as usize] {
+                    continue;
+                }
+                let comp = if armored { "reader-armored" } else { "reader" };
+                let w = if armored { &awire } else { &wire };
+                let bounds = if armored { vec![] } else { stream_boundaries(w) };
+                for (sc, c) in [(Sched::All, Consume::ToEnd), (Sched::Fixed(300), Consume::Read(100)), (Sched::Fixed(4096), Consume::Buf(5))] {
+                    let Some((q0, qlog)) = guarded(ctx, &format!("C09/{comp}/sched"), || base.clone(), || run_read(env, cfg, w, armored, &sc, &c, None)) else { continue };
+                    if q0.err || q0.data != **data {
+                        // (the R family reports this as a schedule violation with full detail)
+                        ctx.violation(format!("C09/{comp}/r0-wrong"), format!("clean read of the cfg {} message ({n} payload bytes, armored={armored}) with source {} consumer {}: {}", cfg.name, sc.name(), c.name(), q0.brief()), base.clone());
+                        continue;
+                    }
+                    let (offsets, ncalls) = {
+                        let l = qlog.lock().unwrap();
+                        (l.offsets.clone(), l.calls)
+                    };
+                    let pts = fault_points(ncalls, &offsets, &bounds, &mut rng, budget.0, budget.1);
+                    ctx.tally(&format!("fault.points.{comp}"), pts.len() as u64);
+                    if n == 700 {
+                        ctx.sample(json!({"family": "F", "cfg": cfg.name, "payload_bytes": n, "armored": armored, "source": sc.name(), "consumer": c.name(), "clean_source_calls": ncalls, "fault_calls": pts, "kinds": ["other/once", "other/sticky", "interrupted/once"]}));
+                    }
+                    for k in pts {
+                        for (kind, sticky) in [(FaultKind::Other, false), (FaultKind::Other, true), (FaultKind::Interrupted, false)] {
+                            let f = Fault { at_call: k, sticky, kind };
+                            let replay = || json!({"family": "F", "cfg": cfg.name, "armored": armored, "wire": hexs(w), "source": sched_json(&sc), "consumer": c.name(), "source_fault": {"call": k, "sticky": sticky, "kind": kind_name(kind), "clean_calls": ncalls}});
+                            let r = guarded(ctx, &fault_prefix(comp, kind), replay, || run_read(env, cfg, w, armored, &sc, &c, Some(f)));
+                            ctx.eval();
+                            let Some((got, log)) = r else { continue };
+                            let raised = log.lock().unwrap().faults_raised;
+                            judge_fault(ctx, comp, &q0, &got, raised, &f, &|| format!("Message reader cfg {} ({n} payload bytes, armored={armored}), source {}, consumer {} ({ncalls} clean source calls)", cfg.name, sc.name(), c.name()), &replay);
+                        }
+                    }
+                }
+            }
+        }
+    }
+
+    // ---- F2: sign(reader) / verify(reader) / armor::write with faults ---------------------------
+    for (i, n) in [0usize, 1, 700, 8192, 8193, 20000].iter().enumerate() {
+        if !ctx.mine() {
+            continue;
+        }
+        let n = *n;
+        let mut rng = ctx.rng("F2", i as u64);
+        let data = Arc::new(payload(&mut rng, n, true));
+        ctx.cover(&("F2", n));
+        describe_case(&format!("F2 sign/verify reader size {n}"));
+        let signer = RecSigner::new(&env.k4.primary_key);
+        let mk = || {
+            let mut c = SignatureConfig::v4(SignatureType::Binary, env.k4.primary_key.algorithm(), HashAlgorithm::Sha256);
+            c.hashed_subpackets = vec![
+                Subpacket::regular(SubpacketData::SignatureCreationTime(Timestamp::from_secs(1_700_000_000))).unwrap(),
+                Subpacket::regular(SubpacketData::IssuerFingerprint(env.k4.primary_key.fingerprint())).unwrap(),
+            ];
+            c
+        };
+        let sign_run = |sc: &Sched, f: Option<Fault>| -> (Out, LogRef) {
+            let src = Src::new(&data, sc).fault(f);
+            let log = src.log();
+            let r = mk().sign(&signer, &Password::empty(), src);
+            let seen = signer.take();
+            let out = match r {
+                Ok(sig) => Out::ok(sig.to_bytes().unwrap_or_default(), format!("digests={:?}", seen.iter().map(|d| hex::encode(&d.digest)).collect::<Vec<_>>())),
+                Err(e) => Out::err("sign", e, vec![]),
+            };
+            (out, log)
+        };
+        let Some((s0, _)) = guarded(ctx, "C09/sign-reader/sched", || json!({"size": n}), || sign_run(&Sched::All, None)) else { continue };
+        ctx.eval();
+        if s0.err {
+            ctx.violation("C09/sign-reader/r0-wrong", format!("clean SignatureConfig::sign failed: {}", s0.brief()), json!({"size": n}));
+            continue;
+        }
+        let sig = match pgp::packet::Signature::try_from_reader(pgp::packet::PacketHeader::new_fixed(pgp::types::Tag::Signature, s0.data.len() as u32), &s0.data[..]) {
+            Ok(s) => s,
+            Err(e) => {
+                ctx.inconclusive(format!("F2: cannot re-parse signature: {e}"));
+                continue;
+            }
+        };
+        let verify_run = |sc: &Sched, f: Option<Fault>| -> (Out, LogRef) {
+            let src = Src::new(&data, sc).fault(f);
+            let log = src.log();
+            let out = match sig.verify(&env.p4.primary_key, src) {
+                Ok(()) => Out::ok(vec![], "verified"),
+                Err(e) => Out::err("verify", e, vec![]),
+            };
+            (out, log)
+        };
+        let Some((v0, _)) = guarded(ctx, "C09/verify-reader/sched", || json!({"size": n}), || verify_run(&Sched::All, None)) else { continue };
+        ctx.eval();
+        if v0.err {
+            ctx.violation("C09/verify-reader/r0-wrong", format!("clean Signature::verify of a fresh signature failed: {}", v0.brief()), json!({"size": n}));
+            continue;
+        }
+        let seeds: Vec<u64> = (0..3).map(|_| rng.gen()).collect();
+        let base = json!({"family": "F2", "size": n, "data": hexs(&data)});
+        diff_and_fault(ctx, "sign-reader", &format!("SignatureConfig::sign over {n} bytes"), &s0, &adversarial(n, &[8192], &seeds, thorough), &[Consume::ToEnd], &[Sched::All, Sched::Fixed(1000), Sched::Fixed(1)], &Consume::ToEnd, &[8192], (64, 24, 0), &base, &|sc, _c, f| sign_run(sc, f));
+        diff_and_fault(ctx, "verify-reader", &format!("Signature::verify over {n} bytes"), &v0, &adversarial(n, &[8192], &seeds, thorough), &[Consume::ToEnd], &[Sched::All, Sched::Fixed(1000), Sched::Fixed(1)], &Consume::ToEnd, &[8192], (64, 24, 0), &base, &|sc, _c, f| verify_run(sc, f));
+    }
+    // armor::write of a certificate (key export path) under sink schedules and sink faults
+    for (i, key) in [&env.p4, &env.p6].iter().enumerate() {
+        for crc in [true, false] {
+            if !ctx.mine() {
+                continue;
+            }
+            ctx.cover(&("F3", i, crc));
+            describe_case(&format!("F3 armor::write key {i} crc {crc}"));
+            let run = |sk: &Sched, f: Option<Fault>| -> (Out, Log) {
+                let mut sink = Sink::new(sk).fault(f);
+                let out = sink.out.clone();
+                let log = sink.log.clone();
+                let r = pgp::armor::write(*key, BlockType::PublicKey, &mut sink, None, crc);
+                let bytes = out.borrow().clone();
+                let l = log.borrow().clone();
+                (match r {
+                    Ok(()) => Out::ok(bytes, ""),
+                    Err(e) => Out::err("write", e, bytes),
+                }, l)
+            };
+            let Some((w0, l0)) = guarded(ctx, "C09/armor-write/sched", || json!({"key": i}), || run(&Sched::All, None)) else { continue };
+            ctx.eval();
+            let raw = key.to_bytes().unwrap_or_default();
+            let anchored = !w0.err && std::str::from_utf8(&w0.data).ok().and_then(|s| rfc::armor::armor_parse_strict(s).ok()).map(|p| p.data == raw).unwrap_or(false);
+            if !anchored {
+                ctx.violation("C09/armor-write/r0-wrong", format!("clean armor::write output does not dearmor (reference) to the key bytes: {}", w0.brief()), json!({"key": i, "crc": crc}));
+                continue;
+            }
+            for sk in sink_scheds(thorough, 11 + i as u64) {
+                let replay = || json!({"family": "F3", "key": i, "crc": crc, "sink": sched_json(&sk)});
+                let got = guarded(ctx, "C09/armor-write/sched", replay, || run(&sk, None).0);
+                ctx.eval();
+                let Some(got) = got else { continue };
+                judge(ctx, "armor-write", &w0, &got, &|| format!("armor::write of certificate {i} (crc={crc}), sink accepts {}", sk.name()), &replay);
+            }
+            for k in 0..l0.calls {
+                for (kind, sticky) in [(FaultKind::Other, false), (FaultKind::Other, true), (FaultKind::Interrupted, false)] {
+                    let f = Fault { at_call: k, sticky, kind };
+                    let replay = || json!({"family": "F3", "key": i, "crc": crc, "sink_fault": {"call": k, "sticky": sticky, "kind": kind_name(kind), "clean_calls": l0.calls}});
+                    let r = guarded(ctx, &fault_prefix("armor-write", kind), replay, || run(&Sched::All, Some(f)));
+                    ctx.eval();
+                    let Some((got, l)) = r else { continue };
+                    judge_fault(ctx, "armor-write", &w0, &got, l.faults_raised, &f, &|| format!("armor::write of certificate {i} (crc={crc}), {} clean sink calls", l0.calls), &replay);
+                }
+            }
+        }
+    }
+}
+
+// ==========================================================================================
+// Family K: armored / binary certificates and an armored message WITH armor headers through the
+// composed entry points (`from_armor_single` over a plain `Read`, `..._buf` over a `BufRead`,
+// `from_bytes`, `Message::from_armor`): every single split of the first bytes, every Fixed(k).
+
+fn family_keys(ctx: &mut Ctx, env: &MsgEnv) {
+    use pgp::composed::{Deserializable, SignedPublicKey};
+    let mut hdrs = pgp::armor::Headers::new();
+    hdrs.insert("Comment".to_string(), vec!["made by the C09 monitor".to_string()]);
+    hdrs.insert("Version".to_string(), vec!["mon 1".to_string()]);
+    let key_out = |r: pgp::errors::Result<(SignedPublicKey, pgp::armor::Headers)>| match r {
+        Ok((k, h)) => Out::ok(k.to_bytes().unwrap_or_default(), format!("{h:?}")),
+        Err(e) => Out::err("parse", e, vec![]),
+    };
+    for (ki, key) in [&env.p4, &env.p6].into_iter().enumerate() {
+        for with_headers in [false, true] {
+            let Ok(text) = key.to_armored_bytes(ArmorOptions { headers: with_headers.then_some(&hdrs), include_checksum: true }) else {
+                ctx.inconclusive("K: cannot armor the zoo key");
+                continue;
+            };
+            let raw = key.to_bytes().unwrap_or_default();
+            let text = Arc::new(text);
+            let n = text.len();
+            let comp = if with_headers { "key-from-armor-headers" } else { "key-from-armor" };
+            let head = 120usize.min(n);
+            let mut scheds: Vec<Sched> = (1..=head).map(Sched::Fixed).collect();
+            scheds.extend((1..head).map(|a| Sched::SplitAt(vec![a])));
+            scheds.extend([Sched::Fixed(n), Sched::Random(ki as u64 + 1, 50), Sched::Random(ki as u64 + 2, 500), Sched::Cycle(vec![27, 1, 28, 2])]);
+            for (mi, mode) in ["read", "bufread"].into_iter().enumerate() {
+                let run = |sc: &Sched, f: Option<Fault>| -> (Out, LogRef) {
+                    let src = Src::new(&text, sc).fault(f);
+                    let log = src.log();
+                    let out = if mode == "read" { key_out(SignedPublicKey::from_armor_single(src)) } else { key_out(SignedPublicKey::from_armor_single_buf(src)) };
+                    (out, log)
+                };
+                if !ctx.mine() {
+                    continue;
+                }
+                describe_case(&format!("K key {ki} headers {with_headers} mode {mode}"));
+                ctx.cover(&("K", ki, with_headers, mi));
+                let Some((r0, _)) = guarded(ctx, &format!("C09/{comp}/sched"), || json!({"key": ki}), || run(&Sched::All, None)) else { continue };
+                ctx.eval();
+                if r0.err || r0.data != raw {
+                    ctx.violation(format!("C09/{comp}/r0-wrong"), format!("all-at-once from_armor_single ({mode}) of an armored certificate gives {}", r0.brief()), json!({"armor": hexs(&text)}));
+                    continue;
+                }
+                let base = json!({"family": "K", "component": comp, "entry": mode, "armor": hexs(&text)});
+                diff_and_fault(ctx, comp, &format!("SignedPublicKey::from_armor_single ({mode}) of certificate {ki} ({n} bytes, armor headers: {with_headers})"), &r0, &scheds, &[Consume::ToEnd], &[Sched::All, Sched::Fixed(64)], &Consume::ToEnd, &[], (64, 16, 0), &base, &|sc, _c, f| run(sc, f));
+            }
+        }
+        // binary certificate through from_bytes
+        if !ctx.mine() {
+            continue;
+        }
+        let raw = Arc::new(key.to_bytes().unwrap_or_default());
+        let n = raw.len();
+        let run = |sc: &Sched, f: Option<Fault>| -> (Out, LogRef) {
+            let src = Src::new(&raw, sc).fault(f);
+            let log = src.log();
+            let out = match SignedPublicKey::from_bytes(src) {
+                Ok(k) => Out::ok(k.to_bytes().unwrap_or_default(), ""),
+                Err(e) => Out::err("parse", e, vec![]),
+            };
+            (out, log)
+        };
+        ctx.cover(&("Kb", ki));
+        let Some((r0, _)) = guarded(ctx, "C09/key-from-bytes/sched", || json!({"key": ki}), || run(&Sched::All, None)) else { continue };
+        ctx.eval();
+        if r0.err || r0.data != **raw {
+            ctx.violation("C09/key-from-bytes/r0-wrong", format!("all-at-once SignedPublicKey::from_bytes gives {}", r0.brief()), json!({"key": hexs(&raw)}));
+            continue;
+        }
+        let bounds = stream_boundaries(&raw);
+        let mut scheds = adversarial(n, &bounds, &[3, 4, 5], !ctx.quick());
+        scheds.extend((1..n).map(|a| Sched::SplitAt(vec![a])));
+        let base = json!({"family": "K", "component": "key-from-bytes", "key": hexs(&raw)});
+        diff_and_fault(ctx, "key-from-bytes", &format!("SignedPublicKey::from_bytes of certificate {ki} ({n} bytes)"), &r0, &scheds, &[Consume::ToEnd], &[Sched::All, Sched::Fixed(16)], &Consume::ToEnd, &bounds, (64, 16, 0), &base, &|sc, _c, f| run(sc, f));
+    }
+
+    // armored message with armor headers through Message::from_armor / Message::from_reader
+    let cfg = &configs()[0];
+    for n in [0usize, 700] {
+        if !ctx.mine() {
+            continue;
+        }
+        let mut rng = Ctx::fixed_rng("c09.K.msg", n as u64);
+        let data = Arc::new(payload(&mut rng, n, false));
+        let mut sink = Sink::new(&Sched::All);
+        let out = sink.out.clone();
+        let b = {
+            let mut b = MessageBuilder::from_reader("", &data[..]);
+            b.partial_chunk_size(512).unwrap();
+            b
+        };
+        if b.to_armored_writer(ChaCha8Rng::seed_from_u64(1), ArmorOptions { headers: Some(&hdrs), include_checksum: true }, &mut sink).is_err() {
+            ctx.inconclusive("K: cannot build the armored message with headers");
+            continue;
+        }
+        let text = Arc::new(out.borrow().clone());
+        let tn = text.len();
+        ctx.cover(&("Km", n));
+        for auto in [false, true] {
+            let comp = "reader-armored-headers";
+            let run = |sc: &Sched, c: &Consume, f: Option<Fault>| -> (Out, LogRef) {
+                let src = Src::new(&text, sc).fault(f);
+                let log = src.log();
+                let out = (|| {
+                    let r = if auto { Message::from_reader(src).map(|(m, h)| (m, h.unwrap_or_default())) } else { Message::from_armor(src) };
+                    let (mut msg, h) = match r {
+                        Ok(x) => x,
+                        Err(e) => return Out::err("parse", e, vec![]),
+                    };
+                    let d = drain(&mut msg, c);
+                    match d.err {
+                        Some(e) => Out::err("read", e, d.data),
+                        None => Out::ok(d.data, format!("{h:?}")),
+                    }
+                })();
+                (out, log)
+            };
+            let Some((r0, _)) = guarded(ctx, &format!("C09/{comp}/sched"), || json!({"size": n}), || run(&Sched::All, &Consume::ToEnd, None)) else { continue };
+            ctx.eval();
+            if r0.err || r0.data != **data || !r0.meta.contains("made by the C09 monitor") {
+                ctx.violation(format!("C09/{comp}/r0-wrong"), format!("all-at-once Message::from_armor (auto={auto}) of a message with armor headers gives {}", r0.brief()), json!({"armor": hexs(&text)}));
+                continue;
+            }
+            let head = 120usize.min(tn);
+            let mut scheds: Vec<Sched> = (1..=head).map(Sched::Fixed).collect();
+            scheds.extend((1..head).map(|a| Sched::SplitAt(vec![a])));
+            scheds.extend([Sched::Random(9, 40), Sched::Random(10, 400)]);
+            let base = json!({"family": "K", "component": comp, "auto_detect": auto, "cfg": cfg.name, "armor": hexs(&text)});
+            diff_and_fault(ctx, comp, &format!("Message::from_{} over an armored message with armor headers ({tn} bytes)", if auto { "reader" } else { "armor" }), &r0, &scheds, &[Consume::ToEnd, Consume::Read(7)], &[Sched::All], &Consume::Read(100), &[], (64, 16, 0), &base, &|sc, c, f| run(sc, c, f));
+        }
+    }
 }
